@@ -1,25 +1,28 @@
 //! Bounded witness / enumerator for unit C01 (labelled BOUNDED, never counted as proved).
 //!
 //! Lifts REAL machine code through the public API of the crate (`falcon::translator::x86::{X86, Amd64}` ->
-//! `Translator::translate_function`), executes the lifted IL with `falcon::executor::Driver` (the pattern of the
-//! crate's own tests in lib/translator/x86/tests/mod.rs: code + `nop`, step until the address of the `nop`) from
-//! a few register / flag states, and compares EVERY general-purpose register and the CF/ZF/SF/OF/DF flags with an
-//! INDEPENDENT model of the processor written here, for the tiny instruction subset whose semantics is beyond
-//! doubt:  mov r,imm / mov r/m,imm / mov r,r (both directions) / xchg / movzx / movsx / movsxd / add / sub / cmp
-//! (register and immediate forms) / inc / dec / neg / one-operand mul / imul / div / idiv (states in which the
-//! processor raises #DE are skipped), on EVERY 8/16/32/64-bit register name of the two modes
-//! (al..bh, spl..dil, r8b..r15b, ax.., r8w.., eax.., r8d.., rax.., r8..r15), hand-encoded (opcodes B0+r, B8+r,
-//! C6, C7, 88-8B, 86, 87, 90+r, 0F B6/B7/BE/BF, 63, 00-03, 28-2B, 38-3B, 04/05, 2C/2D, 3C/3D, 80, 81, 83, FE, FF,
-//! F6 /3../7, F7 /3../7, 40+r, 48+r with 66 and REX prefixes).
-//! Model rules (x86 architecture): a write to an 8- or 16-bit register leaves every other bit of the full register
-//! unchanged; a write to a 32-bit register in 64-bit mode clears bits 63..32; every other register is unchanged;
-//! ZF = (result == 0), SF = msb(result), CF / OF = unsigned / signed overflow of the addition resp. subtraction;
-//! inc / dec keep CF; neg sets CF = (operand != 0); mov / xchg / movzx / movsx change no flag; DF is never changed;
-//! mul / imul: hi:lo = product, CF = OF = (the upper half is significant), ZF / SF undefined (not compared); div / idiv:
-//! lo = quotient, hi = remainder (truncating), all arithmetic flags undefined (not compared).
+//! `Translator::translate_function`), executes the lifted IL with `falcon::executor::Driver` from many register / flag /
+//! memory states and compares ALL general-purpose registers, CF/ZF/SF/OF/DF, the segment-base scalars, EVERY memory
+//! byte written by either side and the NEXT INSTRUCTION ADDRESS with an INDEPENDENT model of the processor written
+//! here (nothing of the lifter is used by the model; the oracle is the Intel SDM vol. 2 instruction reference).
+//!
+//! Machine set-up: code at 0x1000 (the instruction under test, then `nop; hlt`; further `nop; hlt` landing pads at every
+//! direct branch target and at 0x1800 for indirect ones), flat data memory 0x4000..0x8000 and 0x10000..0x14000 filled
+//! with an address-dependent byte pattern, stack pointer 0x13000, fs_base = 0x1000, gs_base = 0x2400, cs/ds/es/ss bases 0
+//! (flat), the IL scalars the lifter uses for them (`fs_base`, `gs_base`, `cs_base`, ...).  A state in which the model touches
+//! unmapped memory or in which the architecture leaves the outcome undefined is skipped; flags the architecture leaves
+//! undefined are not compared; the lifted code is stepped until an instruction with another address is reached.
+//!
+//! Groups: (old) register / immediate forms of mov xchg movzx movsx movsxd add sub cmp inc dec neg mul imul div idiv on every
+//! register name; (mem) every ModRM / SIB / moffs / RIP-relative / 16-bit addressing form x segment overrides for mov add
+//! sub cmp lea movzx movsx inc dec neg xchg push pop; (cc) Jcc / SETcc / CMOVcc x 32 flag states, JCXZ family, LOOP
+//! family; (str) movs stos lods scas cmps x sizes x rep / repe / repne x counts x DF x exit positions x 0x67; (int) adc sbb
+//! and or xor not test shifts rotates shld shrd bt* bsf bsr bswap cbw.. xadd cmpxchg imul push pop call ret jmp leave sahf
+//! lahf flag instructions nop.
 //! An encoding the lifter REJECTS (any error other than a sort error) is outside the property; such encodings are counted
-//! and listed in the summary (`rejected_encodings`), a sort error while lifting IS a disagreement.
-//! One JSON line per disagreement (at most 40 printed, all counted; C01_WITNESS_PRINT=n overrides), then a summary line.
+//! (`rejected_encodings`), a sort error while lifting IS a disagreement.
+//! Output: one JSON line per disagreement (at most 3 per op; C01_WITNESS_PRINT=n overrides), then a summary line.
+//! VERIF_TIER=thorough widens the operand value sets; C01_THREADS (default 4) worker threads; C01_ONLY=<substring> restricts ops.
 use falcon::architecture;
 use falcon::architecture::Endian;
 use falcon::executor::{Driver, Memory, State};
@@ -33,10 +36,17 @@ use std::panic::{catch_unwind, AssertUnwindSafe};
 
 #[derive(Clone, Copy, PartialEq, Eq, Debug)]
 enum M { X86, Amd64 }
+impl M {
+    fn bits(self) -> u8 { if self == M::X86 { 32 } else { 64 } }
+    fn mask(self) -> u64 { wmask(self.bits()) }
+    fn name(self) -> &'static str { if self == M::X86 { "x86" } else { "amd64" } }
+}
 
 /// a register operand: hardware register `idx`, width in bits, `high` = ah/ch/dh/bh (bits 15..8 of idx 0..3)
 #[derive(Clone, Copy, PartialEq, Eq, Debug)]
 struct R { idx: u8, w: u8, high: bool }
+fn r(idx: u8, w: u8) -> R { R { idx, w, high: false } }
+fn rh(idx: u8) -> R { R { idx, w: 8, high: true } }
 
 const N64: [&str; 16] = ["rax", "rcx", "rdx", "rbx", "rsp", "rbp", "rsi", "rdi", "r8", "r9", "r10", "r11", "r12", "r13", "r14", "r15"];
 const N32: [&str; 16] = ["eax", "ecx", "edx", "ebx", "esp", "ebp", "esi", "edi", "r8d", "r9d", "r10d", "r11d", "r12d", "r13d", "r14d", "r15d"];
@@ -70,23 +80,45 @@ fn regs(m: M, w: u8) -> Vec<R> {
     let mut v = Vec::new();
     if w == 64 && m == M::X86 { return v; }
     for idx in 0..nregs(m) as u8 {
-        let r = R { idx, w, high: false };
-        if m == M::X86 && r.needs_rex() { continue; }
-        v.push(r);
+        let x = r(idx, w);
+        if m == M::X86 && x.needs_rex() { continue; }
+        v.push(x);
     }
-    if w == 8 { for idx in 0..4u8 { v.push(R { idx, w: 8, high: true }); } }
+    if w == 8 { for idx in 0..4u8 { v.push(rh(idx)); } }
     v
 }
 
+// ------------------------------------------------------------------ machine layout
+const CODE: u64 = 0x1000;
+const CODE_LO: u64 = 0x0800;
+const CODE_HI: u64 = 0x2000;
+const LOW_LO: u64 = 0x4000;
+const LOW_HI: u64 = 0x8000;
+const MAIN_LO: u64 = 0x10000;
+const MAIN_HI: u64 = 0x14000;
+const STACK: u64 = 0x13000;
+const FS_BASE: u64 = 0x1000;
+const GS_BASE: u64 = 0x2400;
+const PAD_IND: u64 = 0x1800;
+/// effective-address targets of the memory-operand forms
+const T32: u64 = 0x10800;
+const T16: u64 = 0x4800;
+
+fn pat(a: u64) -> u8 { ((a.wrapping_mul(0x9E37_79B9) >> 7) ^ (a >> 3) ^ 0xA5) as u8 }
+fn mapped(a: u64) -> bool { (LOW_LO..LOW_HI).contains(&a) || (MAIN_LO..MAIN_HI).contains(&a) }
+
+type Skip = &'static str;
+
 // ------------------------------------------------------------------ the independent processor model
-#[derive(Clone, PartialEq, Debug)]
-struct Cpu { r: [u64; 16], cf: bool, zf: bool, sf: bool, of: bool, df: bool }
+#[derive(Clone, Debug)]
+struct Cpu { r: [u64; 16], cf: bool, zf: bool, sf: bool, of: bool, df: bool, pf: bool, fs: u64, gs: u64, mem: BTreeMap<u64, u8> }
 
 impl Cpu {
     fn read(&self, x: R) -> u64 {
         let v = self.r[x.idx as usize];
         if x.high { (v >> 8) & 0xff } else { v & wmask(x.w) }
     }
+    /// architectural register write (32-bit writes zero-extend in 64-bit mode)
     fn write(&mut self, m: M, x: R, v: u64) {
         let v = v & wmask(x.w);
         let old = self.r[x.idx as usize];
@@ -94,23 +126,99 @@ impl Cpu {
             (8, true) => (old & !0xff00u64) | (v << 8),
             (8, false) => (old & !0xffu64) | v,
             (16, _) => (old & !0xffffu64) | v,
-            (32, _) => v, // 32-bit mode: the whole register; 64-bit mode: zero-extended into the 64-bit register
             _ => v,
         };
         self.r[x.idx as usize] = if m == M::X86 { new & 0xffff_ffff } else { new };
     }
+    /// state set-up: replaces the named bits only (no zero-extension)
+    fn poke(&mut self, m: M, x: R, v: u64) {
+        if x.w == 32 && m == M::Amd64 {
+            let old = self.r[x.idx as usize];
+            self.r[x.idx as usize] = (old & !0xffff_ffffu64) | (v & 0xffff_ffff);
+        } else { self.write(m, x, v) }
+    }
+    fn byte(&self, a: u64) -> u8 { *self.mem.get(&a).unwrap_or(&pat(a)) }
+    fn ld(&self, m: M, a: u64, n: u8) -> Result<u64, Skip> {
+        let mut v = 0u64;
+        for i in 0..n as u64 {
+            let x = a.wrapping_add(i) & m.mask();
+            if !mapped(x) { return Err("unmapped"); }
+            v |= (self.byte(x) as u64) << (8 * i);
+        }
+        Ok(v)
+    }
+    fn st(&mut self, m: M, a: u64, n: u8, v: u64) -> Result<(), Skip> {
+        for i in 0..n as u64 { if !mapped(a.wrapping_add(i) & m.mask()) { return Err("unmapped"); } }
+        for i in 0..n as u64 { self.mem.insert(a.wrapping_add(i) & m.mask(), (v >> (8 * i)) as u8); }
+        Ok(())
+    }
 }
 
-#[derive(Clone, Copy, Debug, PartialEq)]
-enum Alu { Add, Sub, Cmp }
-#[derive(Clone, Copy, Debug, PartialEq)]
-enum Un { Inc, Dec, Neg }
+#[derive(Clone, Copy, PartialEq, Eq, Debug)]
+enum Seg { None, Cs, Ds, Es, Fs, Gs, Ss }
+impl Seg {
+    fn prefix(self) -> Option<u8> { match self { Seg::None => None, Seg::Cs => Some(0x2e), Seg::Ds => Some(0x3e), Seg::Es => Some(0x26), Seg::Fs => Some(0x64), Seg::Gs => Some(0x65), Seg::Ss => Some(0x36) } }
+    fn name(self) -> &'static str { match self { Seg::None => "", Seg::Cs => "cs:", Seg::Ds => "ds:", Seg::Es => "es:", Seg::Fs => "fs:", Seg::Gs => "gs:", Seg::Ss => "ss:" } }
+    fn base(self) -> u64 { match self { Seg::Fs => FS_BASE, Seg::Gs => GS_BASE, _ => 0 } }
+}
+
+/// a memory operand: seg:[base + index*scale + disp] at address width `aw`; `rip`: disp is the ABSOLUTE target of a
+/// RIP-relative form; `dsz` displacement bytes in the encoding; `sib` forces a SIB byte
 #[derive(Clone, Copy, Debug)]
-enum Src { Reg(R), Imm(u64) }
+struct MemRef { seg: Seg, aw: u8, base: Option<u8>, index: Option<(u8, u8)>, disp: i64, dsz: u8, rip: bool, sib: bool }
+
 #[derive(Clone, Copy, Debug)]
-enum Sem { MovImm(R, u64), Mov(R, R), Xchg(R, R), Movzx(R, R), Movsx(R, R), Alu(Alu, R, Src), Un(Un, R), MulDiv(Md, R) }
+enum Op { R(R), M(MemRef, u8), I(u64) }
+
+fn mem_str(mr: &MemRef, w: u8) -> String {
+    let mut s = String::new();
+    if mr.rip { s.push_str("rip->"); }
+    if let Some(b) = mr.base { s.push_str(r(b, mr.aw).name()); }
+    if let Some((i, sc)) = mr.index { if !s.is_empty() { s.push('+'); } s.push_str(&format!("{}*{}", r(i, mr.aw).name(), sc)); }
+    if mr.dsz != 0 || (mr.base.is_none() && mr.index.is_none()) {
+        if mr.disp < 0 { s.push_str(&format!("-0x{:x}", -mr.disp)); } else { s.push_str(&format!("+0x{:x}", mr.disp)); }
+        s.push_str(&format!("(d{})", mr.dsz * 8));
+    }
+    let sz = match w { 8 => "byte", 16 => "word", 32 => "dword", 64 => "qword", _ => "" };
+    format!("{} {}[{}]{}", sz, mr.seg.name(), s, if mr.sib { "(sib)" } else { "" })
+}
+fn op_str(o: &Op) -> String { match o { Op::R(x) => x.name().to_string(), Op::M(mr, w) => mem_str(mr, *w), Op::I(v) => format!("0x{:x}", v) } }
+fn op_w(o: &Op) -> u8 { match o { Op::R(x) => x.w, Op::M(_, w) => *w, Op::I(_) => 0 } }
+
+#[derive(Clone, Copy, Debug, PartialEq)]
+enum Alu { Add, Or, Adc, Sbb, And, Sub, Xor, Cmp, Test }
+#[derive(Clone, Copy, Debug, PartialEq)]
+enum Un { Inc, Dec, Not, Neg }
 #[derive(Clone, Copy, Debug, PartialEq)]
 enum Md { Mul, Imul, Div, Idiv }
+#[derive(Clone, Copy, Debug, PartialEq)]
+enum Sh { Rol, Ror, Shl, Shr, Sar }
+#[derive(Clone, Copy, Debug, PartialEq)]
+enum Cnt { One, Cl, Imm(u8) }
+#[derive(Clone, Copy, Debug, PartialEq)]
+enum Bt { Bt, Bts, Btr, Btc }
+#[derive(Clone, Copy, Debug, PartialEq)]
+enum Ext { Cbw, Cwde, Cdqe, Cwd, Cdq, Cqo }
+#[derive(Clone, Copy, Debug, PartialEq)]
+enum Str { Movs, Stos, Lods, Scas, Cmps }
+#[derive(Clone, Copy, Debug, PartialEq)]
+enum Rep { None, Rep, Repne }
+#[derive(Clone, Copy, Debug, PartialEq)]
+enum Fl { Clc, Stc, Cld, Std, Cmc }
+#[derive(Clone, Copy, Debug)]
+enum Tgt { Rel(u64), Ind(Op) }
+
+#[derive(Clone, Copy, Debug)]
+enum I {
+    Nop,
+    Mov(Op, Op), Movzx(Op, Op), Movsx(Op, Op), Lea(R, MemRef), Xchg(Op, Op),
+    Alu(Alu, Op, Op), Un(Un, Op), MulDiv(Md, Op), Imul2(R, Op), Imul3(R, Op, u64),
+    Shift(Sh, Op, Cnt), Shxd(bool, Op, R, Cnt), Bt(Bt, Op, Op), Bsf(bool, R, Op), Bswap(R), Ext(Ext),
+    Xadd(Op, R), Cmpxchg(Op, R),
+    Push(Op, u8), Pop(Op), Call(Tgt), Ret(u16), Jmp(Tgt), Leave,
+    Jcc(u8, u64), Setcc(u8, Op), Cmov(u8, R, Op), Jcxz(u8, u64), Loop(u8, u8, u64),
+    Str(Str, u8, Rep, u8, Seg), Flag(Fl), Sahf, Lahf,
+}
 
 fn sext(v: u64, from: u8, to: u8) -> u64 {
     let v = v & wmask(from);
@@ -119,80 +227,330 @@ fn sext(v: u64, from: u8, to: u8) -> u64 {
 }
 fn msb(v: u64, w: u8) -> bool { (v >> (w - 1)) & 1 == 1 }
 
-fn flags_add(c: &mut Cpu, w: u8, a: u64, b: u64, set_cf: bool) -> u64 {
-    let res = a.wrapping_add(b) & wmask(w);
-    let wide = a as u128 + b as u128;
+fn flags_add(c: &mut Cpu, w: u8, a: u64, b: u64, cin: u64, set_cf: bool) -> u64 {
+    let wide = a as u128 + b as u128 + cin as u128;
+    let res = (wide as u64) & wmask(w);
     if set_cf { c.cf = wide > wmask(w) as u128; }
     c.zf = res == 0;
     c.sf = msb(res, w);
     c.of = msb(a, w) == msb(b, w) && msb(res, w) != msb(a, w);
     res
 }
-fn flags_sub(c: &mut Cpu, w: u8, a: u64, b: u64, set_cf: bool) -> u64 {
-    let res = a.wrapping_sub(b) & wmask(w);
-    if set_cf { c.cf = a < b; }
+fn flags_sub(c: &mut Cpu, w: u8, a: u64, b: u64, cin: u64, set_cf: bool) -> u64 {
+    let res = a.wrapping_sub(b).wrapping_sub(cin) & wmask(w);
+    if set_cf { c.cf = (a as u128) < (b as u128 + cin as u128); }
     c.zf = res == 0;
     c.sf = msb(res, w);
     c.of = msb(a, w) != msb(b, w) && msb(res, w) != msb(a, w);
     res
 }
-
-fn model(c: &mut Cpu, m: M, s: &Sem) -> bool {
-    match *s {
-        Sem::MulDiv(op, src) => return muldiv(c, m, op, src),
-        Sem::MovImm(d, v) => c.write(m, d, v),
-        Sem::Mov(d, s) => { let v = c.read(s); c.write(m, d, v) }
-        Sem::Xchg(a, b) => { let (va, vb) = (c.read(a), c.read(b)); c.write(m, a, vb); c.write(m, b, va) }
-        Sem::Movzx(d, s) => { let v = c.read(s); c.write(m, d, v) }
-        Sem::Movsx(d, s) => { let v = sext(c.read(s), s.w, d.w); c.write(m, d, v) }
-        Sem::Alu(op, d, s) => {
-            let a = c.read(d);
-            let b = match s { Src::Reg(r) => c.read(r), Src::Imm(v) => v & wmask(d.w) };
-            match op {
-                Alu::Add => { let r = flags_add(c, d.w, a, b, true); c.write(m, d, r) }
-                Alu::Sub => { let r = flags_sub(c, d.w, a, b, true); c.write(m, d, r) }
-                Alu::Cmp => { flags_sub(c, d.w, a, b, true); }
-            }
-        }
-        Sem::Un(op, d) => {
-            let a = c.read(d);
-            match op {
-                Un::Inc => { let r = flags_add(c, d.w, a, 1, false); c.write(m, d, r) }
-                Un::Dec => { let r = flags_sub(c, d.w, a, 1, false); c.write(m, d, r) }
-                Un::Neg => { let r = flags_sub(c, d.w, 0, a, true); c.write(m, d, r) }
-            }
-        }
-    }
-    true
+fn flags_logic(c: &mut Cpu, w: u8, res: u64) -> u64 {
+    c.cf = false; c.of = false; c.zf = res & wmask(w) == 0; c.sf = msb(res, w);
+    res & wmask(w)
 }
 
-/// one-operand mul / imul / div / idiv on the accumulator pair. Returns false when the processor
-/// raises #DE (zero divisor, quotient out of range). Flags: mul / imul define CF = OF only; div / idiv define none.
-fn muldiv(c: &mut Cpu, m: M, op: Md, src: R) -> bool {
-    let w = src.w;
-    let lo = R { idx: 0, w, high: false };
-    let hi = if w == 8 { R { idx: 0, w: 8, high: true } } else { R { idx: 2, w, high: false } };
-    let b = c.read(src);
+/// SDM vol. 2, Jcc / SETcc / CMOVcc: condition number = low nibble of the opcode
+fn cond(c: &Cpu, cc: u8) -> bool {
+    let b = match cc >> 1 {
+        0 => c.of, 1 => c.cf, 2 => c.zf, 3 => c.cf || c.zf, 4 => c.sf, 5 => c.pf, 6 => c.sf != c.of, _ => c.zf || (c.sf != c.of),
+    };
+    if cc & 1 == 1 { !b } else { b }
+}
+const CC_NAMES: [&str; 16] = ["o", "no", "b", "ae", "e", "ne", "be", "a", "s", "ns", "p", "np", "l", "ge", "le", "g"];
+
+fn ea(c: &Cpu, mr: &MemRef) -> u64 {
+    let am = wmask(mr.aw);
+    let mut a = mr.disp as u64;
+    if let Some(b) = mr.base { a = a.wrapping_add(c.r[b as usize] & am); }
+    if let Some((i, s)) = mr.index { a = a.wrapping_add((c.r[i as usize] & am).wrapping_mul(s as u64)); }
+    a & am
+}
+fn lin(c: &Cpu, m: M, mr: &MemRef) -> u64 { (segbase(c, mr.seg).wrapping_add(ea(c, mr))) & m.mask() }
+fn segbase(c: &Cpu, s: Seg) -> u64 { match s { Seg::Fs => c.fs, Seg::Gs => c.gs, _ => 0 } }
+
+#[derive(Clone, Copy)]
+enum Loc { R(R), M(u64, u8), I(u64) }
+fn loc(c: &Cpu, m: M, o: &Op) -> Loc { match o { Op::R(x) => Loc::R(*x), Op::M(mr, w) => Loc::M(lin(c, m, mr), *w), Op::I(v) => Loc::I(*v) } }
+fn lget(c: &Cpu, m: M, l: Loc) -> Result<u64, Skip> { match l { Loc::R(x) => Ok(c.read(x)), Loc::M(a, w) => c.ld(m, a, w / 8), Loc::I(v) => Ok(v) } }
+fn lput(c: &mut Cpu, m: M, l: Loc, v: u64) -> Result<(), Skip> { match l { Loc::R(x) => { c.write(m, x, v); Ok(()) } Loc::M(a, w) => c.st(m, a, w / 8, v), Loc::I(_) => Err("store to immediate") } }
+fn lw(l: Loc) -> u8 { match l { Loc::R(x) => x.w, Loc::M(_, w) => w, Loc::I(_) => 0 } }
+
+const UCF: u8 = 1;
+const UZF: u8 = 2;
+const USF: u8 = 4;
+const UOF: u8 = 8;
+
+/// result of the model: state, next instruction address, flags left undefined, per-register comparison mask
+struct Out { cpu: Cpu, next: u64, undef: u8, rmask: [u64; 16] }
+
+fn push_val(c: &mut Cpu, m: M, w: u8, v: u64) -> Result<(), Skip> {
+    let sp = c.r[4].wrapping_sub(w as u64 / 8) & m.mask();
+    c.st(m, sp, w / 8, v)?;
+    c.r[4] = sp;
+    Ok(())
+}
+fn pop_val(c: &mut Cpu, m: M, w: u8) -> Result<u64, Skip> {
+    let v = c.ld(m, c.r[4], w / 8)?;
+    c.r[4] = c.r[4].wrapping_add(w as u64 / 8) & m.mask();
+    Ok(v)
+}
+/// register update of a string / loop instruction at address width `aw` (32-bit writes zero-extend in 64-bit mode)
+fn aw_write(c: &mut Cpu, m: M, idx: u8, aw: u8, v: u64) { c.write(m, r(idx, aw), v) }
+
+fn model(m: M, c0: &Cpu, ins: &I, len: u64) -> Result<Out, Skip> {
+    let mut c = c0.clone();
+    let mut next = CODE + len;
+    let mut undef = 0u8;
+    let mut rmask = [u64::MAX; 16];
+    match *ins {
+        I::Nop => {}
+        I::Mov(d, s) | I::Movzx(d, s) => { let (ld, ls) = (loc(&c, m, &d), loc(&c, m, &s)); let v = lget(&c, m, ls)?; lput(&mut c, m, ld, v)?; }
+        I::Movsx(d, s) => { let (ld, ls) = (loc(&c, m, &d), loc(&c, m, &s)); let v = sext(lget(&c, m, ls)?, lw(ls), lw(ld)); lput(&mut c, m, ld, v)?; }
+        I::Lea(d, mr) => { let v = ea(&c, &mr); c.write(m, d, v); }
+        I::Xchg(a, b) => { let (la, lb) = (loc(&c, m, &a), loc(&c, m, &b)); let (va, vb) = (lget(&c, m, la)?, lget(&c, m, lb)?); lput(&mut c, m, la, vb)?; lput(&mut c, m, lb, va)?; }
+        I::Alu(op, d, s) => {
+            let (ld, ls) = (loc(&c, m, &d), loc(&c, m, &s));
+            let w = lw(ld);
+            let a = lget(&c, m, ld)?;
+            let b = lget(&c, m, ls)? & wmask(w);
+            let cin = c.cf as u64;
+            let res = match op {
+                Alu::Add => flags_add(&mut c, w, a, b, 0, true),
+                Alu::Adc => flags_add(&mut c, w, a, b, cin, true),
+                Alu::Sub | Alu::Cmp => flags_sub(&mut c, w, a, b, 0, true),
+                Alu::Sbb => flags_sub(&mut c, w, a, b, cin, true),
+                Alu::And | Alu::Test => flags_logic(&mut c, w, a & b),
+                Alu::Or => flags_logic(&mut c, w, a | b),
+                Alu::Xor => flags_logic(&mut c, w, a ^ b),
+            };
+            if op != Alu::Cmp && op != Alu::Test { lput(&mut c, m, ld, res)?; }
+        }
+        I::Un(op, d) => {
+            let ld = loc(&c, m, &d);
+            let w = lw(ld);
+            let a = lget(&c, m, ld)?;
+            let res = match op {
+                Un::Inc => flags_add(&mut c, w, a, 1, 0, false),
+                Un::Dec => flags_sub(&mut c, w, a, 1, 0, false),
+                Un::Neg => flags_sub(&mut c, w, 0, a, 0, true),
+                Un::Not => !a & wmask(w),
+            };
+            lput(&mut c, m, ld, res)?;
+        }
+        I::MulDiv(op, s) => { let ls = loc(&c, m, &s); let b = lget(&c, m, ls)?; if !muldiv(&mut c, m, op, lw(ls), b) { return Err("#DE"); } if op == Md::Mul || op == Md::Imul { undef |= UZF | USF; } else { undef |= UZF | USF | UCF | UOF; } }
+        I::Imul2(d, s) | I::Imul3(d, s, _) => {
+            let w = d.w;
+            let a = if let I::Imul3(..) = *ins { lget(&c, m, loc(&c, m, &s))? } else { c.read(d) };
+            let b = if let I::Imul3(_, _, imm) = *ins { imm } else { lget(&c, m, loc(&c, m, &s))? };
+            let p = (sext(a, w, 64) as i64 as i128) * (sext(b, w, 64) as i64 as i128);
+            let res = (p as u64) & wmask(w);
+            let over = (sext(res, w, 64) as i64 as i128) != p;
+            c.cf = over; c.of = over; undef |= UZF | USF;
+            c.write(m, d, res);
+        }
+        I::Shift(sh, d, cnt) => {
+            let ld = loc(&c, m, &d);
+            let w = lw(ld);
+            let a = lget(&c, m, ld)?;
+            let raw = match cnt { Cnt::One => 1, Cnt::Cl => c.r[1] & 0xff, Cnt::Imm(i) => i as u64 };
+            let cm = (raw & if w == 64 { 0x3f } else { 0x1f }) as u32;
+            if cm == 0 {
+                // no flag changes; a 32-bit register destination is still written (zero-extended) in 64-bit mode
+                lput(&mut c, m, ld, a)?;
+            } else {
+                let wm = wmask(w);
+                let bit = |v: u64, n: u32| -> bool { n < 64 && (v >> n) & 1 == 1 };
+                let res = match sh {
+                    Sh::Rol | Sh::Ror => {
+                        let e = cm % w as u32;
+                        let res = if e == 0 { a } else if sh == Sh::Rol { ((a << e) | (a >> (w as u32 - e))) & wm } else { ((a >> e) | (a << (w as u32 - e))) & wm };
+                        if sh == Sh::Rol { c.cf = res & 1 == 1; if cm == 1 { c.of = msb(res, w) != c.cf; } else { undef |= UOF; } }
+                        else { c.cf = msb(res, w); if cm == 1 { c.of = msb(res, w) != bit(res, w as u32 - 2); } else { undef |= UOF; } }
+                        res
+                    }
+                    Sh::Shl => {
+                        let res = if cm >= w as u32 { 0 } else { (a << cm) & wm };
+                        if cm < w as u32 { c.cf = bit(a, w as u32 - cm); } else { undef |= UCF; }
+                        if cm == 1 { c.of = msb(res, w) != c.cf; } else { undef |= UOF; }
+                        c.zf = res == 0; c.sf = msb(res, w);
+                        res
+                    }
+                    Sh::Shr => {
+                        let res = if cm >= w as u32 { 0 } else { a >> cm };
+                        if cm < w as u32 { c.cf = bit(a, cm - 1); } else { undef |= UCF; }
+                        if cm == 1 { c.of = msb(a, w); } else { undef |= UOF; }
+                        c.zf = res == 0; c.sf = msb(res, w);
+                        res
+                    }
+                    Sh::Sar => {
+                        let sa = sext(a, w, 64) as i64;
+                        let res = ((sa >> cm.min(63)) as u64) & wm;
+                        c.cf = ((sa >> (cm - 1).min(63)) & 1) == 1;
+                        if cm == 1 { c.of = false; } else { undef |= UOF; }
+                        c.zf = res == 0; c.sf = msb(res, w);
+                        res
+                    }
+                };
+                lput(&mut c, m, ld, res)?;
+            }
+        }
+        I::Shxd(left, d, s, cnt) => {
+            let ld = loc(&c, m, &d);
+            let w = lw(ld);
+            let a = lget(&c, m, ld)?;
+            let b = c.read(s);
+            let raw = match cnt { Cnt::One => 1, Cnt::Cl => c.r[1] & 0xff, Cnt::Imm(i) => i as u64 };
+            let cm = (raw & if w == 64 { 0x3f } else { 0x1f }) as u32;
+            if cm == 0 { lput(&mut c, m, ld, a)?; }
+            else if cm > w as u32 { return Err("shld/shrd count > operand size: undefined"); }
+            else {
+                let wm = wmask(w);
+                let wn = w as u32;
+                let res = if left { ((if cm >= 64 { 0 } else { a << cm }) | (if wn - cm >= 64 { 0 } else { b >> (wn - cm) })) & wm }
+                          else { ((if cm >= 64 { 0 } else { a >> cm }) | (if wn - cm >= 64 { 0 } else { b << (wn - cm) })) & wm };
+                if cm == wn { undef |= UCF; } else if left { c.cf = (a >> (wn - cm)) & 1 == 1; } else { c.cf = (a >> (cm - 1)) & 1 == 1; }
+                if cm == 1 { c.of = msb(a, w) != msb(res, w); } else { undef |= UOF; }
+                c.zf = res == 0; c.sf = msb(res, w);
+                lput(&mut c, m, ld, res)?;
+            }
+        }
+        I::Bt(k, base, off) => {
+            let w = op_w(&base);
+            let (l, bit) = match (base, off) {
+                (Op::R(x), o) => (Loc::R(x), lget(&c, m, loc(&c, m, &o))? & (w as u64 - 1)),
+                (Op::M(mr, _), Op::I(i)) => (Loc::M(lin(&c, m, &mr), w), i & (w as u64 - 1)),
+                (Op::M(mr, _), Op::R(o)) => {
+                    let so = sext(c.read(o), w, 64) as i64;
+                    let q = so.div_euclid(w as i64);
+                    let e = ea(&c, &mr).wrapping_add((q.wrapping_mul(w as i64 / 8)) as u64) & wmask(mr.aw);
+                    (Loc::M(segbase(&c, mr.seg).wrapping_add(e) & m.mask(), w), so.rem_euclid(w as i64) as u64)
+                }
+                _ => return Err("bt form"),
+            };
+            let v = lget(&c, m, l)?;
+            c.cf = (v >> bit) & 1 == 1;
+            undef |= USF | UOF;
+            let nv = match k { Bt::Bt => v, Bt::Bts => v | (1 << bit), Bt::Btr => v & !(1 << bit), Bt::Btc => v ^ (1 << bit) };
+            if k != Bt::Bt { lput(&mut c, m, l, nv)?; }
+        }
+        I::Bsf(rev, d, s) => {
+            let ls = loc(&c, m, &s);
+            let v = lget(&c, m, ls)?;
+            undef |= UCF | USF | UOF;
+            if v == 0 { c.zf = true; rmask[d.idx as usize] = 0; }
+            else { c.zf = false; let i = if rev { 63 - v.leading_zeros() } else { v.trailing_zeros() }; c.write(m, d, i as u64); }
+        }
+        I::Bswap(d) => { let v = c.read(d); let res = if d.w == 64 { v.swap_bytes() } else { (v as u32).swap_bytes() as u64 }; c.write(m, d, res); }
+        I::Ext(e) => match e {
+            Ext::Cbw => { let v = sext(c.read(r(0, 8)), 8, 16); c.write(m, r(0, 16), v); }
+            Ext::Cwde => { let v = sext(c.read(r(0, 16)), 16, 32); c.write(m, r(0, 32), v); }
+            Ext::Cdqe => { let v = sext(c.read(r(0, 32)), 32, 64); c.write(m, r(0, 64), v); }
+            Ext::Cwd => { let v = if msb(c.read(r(0, 16)), 16) { 0xffff } else { 0 }; c.write(m, r(2, 16), v); }
+            Ext::Cdq => { let v = if msb(c.read(r(0, 32)), 32) { 0xffff_ffff } else { 0 }; c.write(m, r(2, 32), v); }
+            Ext::Cqo => { let v = if msb(c.read(r(0, 64)), 64) { u64::MAX } else { 0 }; c.write(m, r(2, 64), v); }
+        },
+        I::Xadd(d, s) => {
+            let ld = loc(&c, m, &d);
+            let w = lw(ld);
+            let a = lget(&c, m, ld)?;
+            let b = c.read(s);
+            let res = flags_add(&mut c, w, a, b, 0, true);
+            c.write(m, s, a);
+            lput(&mut c, m, ld, res)?;
+        }
+        I::Cmpxchg(d, s) => {
+            let ld = loc(&c, m, &d);
+            let w = lw(ld);
+            let acc = r(0, w);
+            let dv = lget(&c, m, ld)?;
+            let av = c.read(acc);
+            flags_sub(&mut c, w, av, dv, 0, true);
+            if av == dv { let sv = c.read(s); lput(&mut c, m, ld, sv)?; } else { lput(&mut c, m, ld, dv)?; c.write(m, acc, dv); }
+        }
+        I::Push(o, w) => { let v = lget(&c, m, loc(&c, m, &o))?; push_val(&mut c, m, w, v)?; }
+        I::Pop(o) => { let w = op_w(&o); let v = pop_val(&mut c, m, w)?; let l = loc(&c, m, &o); lput(&mut c, m, l, v)?; }
+        I::Call(t) => { let tgt = match t { Tgt::Rel(a) => a, Tgt::Ind(o) => lget(&c, m, loc(&c, m, &o))? & m.mask() }; push_val(&mut c, m, m.bits(), next)?; next = tgt; }
+        I::Ret(imm) => { let v = pop_val(&mut c, m, m.bits())?; c.r[4] = c.r[4].wrapping_add(imm as u64) & m.mask(); next = v; }
+        I::Jmp(t) => { next = match t { Tgt::Rel(a) => a, Tgt::Ind(o) => lget(&c, m, loc(&c, m, &o))? & m.mask() }; }
+        I::Leave => { c.r[4] = c.r[5]; let v = pop_val(&mut c, m, m.bits())?; c.r[5] = v; }
+        I::Jcc(cc, t) => { if cond(&c, cc) { next = t; } }
+        I::Setcc(cc, d) => { let l = loc(&c, m, &d); let v = cond(&c, cc) as u64; lput(&mut c, m, l, v)?; }
+        I::Cmov(cc, d, s) => {
+            let v = lget(&c, m, loc(&c, m, &s))?;
+            // a 32-bit destination is zero-extended in 64-bit mode even when the condition is false (SDM CMOVcc)
+            if cond(&c, cc) { c.write(m, d, v); } else if d.w == 32 { let old = c.read(d); c.write(m, d, old); }
+        }
+        I::Jcxz(cw, t) => { if c.r[1] & wmask(cw) == 0 { next = t; } }
+        I::Loop(kind, cw, t) => {
+            let cnt = (c.r[1] & wmask(cw)).wrapping_sub(1) & wmask(cw);
+            if cw == 32 && m == M::Amd64 && c.r[1] >> 32 != 0 { rmask[1] = 0xffff_ffff; }
+            aw_write(&mut c, m, 1, cw, cnt);
+            let take = cnt != 0 && match kind { 0 => !c.zf, 1 => c.zf, _ => true };
+            if take { next = t; }
+        }
+        I::Str(k, w, rep, aw, seg) => {
+            let am = wmask(aw);
+            let n = w as u64 / 8;
+            if aw == 32 && m == M::Amd64 { for i in [1usize, 6, 7] { if c.r[i] >> 32 != 0 { rmask[i] = 0xffff_ffff; } } }
+            let acc = r(0, w);
+            let mut iter = 0;
+            loop {
+                if rep != Rep::None && c.r[1] & am == 0 { break; }
+                iter += 1;
+                if iter > 64 { return Err("rep count too large for the bounded run"); }
+                let src = segbase(&c, seg).wrapping_add(c.r[6] & am) & m.mask();
+                let dst = (c.r[7] & am) & m.mask();
+                let delta = if c.df { n.wrapping_neg() } else { n };
+                let (mut use_si, mut use_di) = (false, false);
+                match k {
+                    Str::Movs => { let v = c.ld(m, src, n as u8)?; c.st(m, dst, n as u8, v)?; use_si = true; use_di = true; }
+                    Str::Stos => { let v = c.read(acc); c.st(m, dst, n as u8, v)?; use_di = true; }
+                    Str::Lods => { let v = c.ld(m, src, n as u8)?; c.write(m, acc, v); use_si = true; }
+                    Str::Scas => { let v = c.ld(m, dst, n as u8)?; let a = c.read(acc); flags_sub(&mut c, w, a, v, 0, true); use_di = true; }
+                    Str::Cmps => { let a = c.ld(m, src, n as u8)?; let b = c.ld(m, dst, n as u8)?; flags_sub(&mut c, w, a, b, 0, true); use_si = true; use_di = true; }
+                }
+                if use_si { let v = (c.r[6] & am).wrapping_add(delta); aw_write(&mut c, m, 6, aw, v); }
+                if use_di { let v = (c.r[7] & am).wrapping_add(delta); aw_write(&mut c, m, 7, aw, v); }
+                if rep == Rep::None { break; }
+                let v = (c.r[1] & am).wrapping_sub(1);
+                aw_write(&mut c, m, 1, aw, v);
+                if k == Str::Scas || k == Str::Cmps {
+                    if rep == Rep::Rep && !c.zf { break; }
+                    if rep == Rep::Repne && c.zf { break; }
+                }
+            }
+        }
+        I::Flag(f) => match f { Fl::Clc => c.cf = false, Fl::Stc => c.cf = true, Fl::Cld => c.df = false, Fl::Std => c.df = true, Fl::Cmc => c.cf = !c.cf },
+        I::Sahf => { let ah = c.read(rh(0)); c.sf = ah & 0x80 != 0; c.zf = ah & 0x40 != 0; c.pf = ah & 4 != 0; c.cf = ah & 1 != 0; }
+        I::Lahf => { let v = ((c.sf as u64) << 7) | ((c.zf as u64) << 6) | ((c.pf as u64) << 2) | 2 | c.cf as u64; let old = c.read(rh(0)); c.write(m, rh(0), (v & !0x10) | (old & 0x10)); rmask[0] &= !0x1000; }
+    }
+    Ok(Out { cpu: c, next, undef, rmask })
+}
+
+/// one-operand mul / imul / div / idiv on the accumulator pair; `b` = the source value of width `w`. Returns false when the
+/// processor raises #DE (zero divisor, quotient out of range). Flags: mul / imul define CF = OF only; div / idiv define none.
+fn muldiv(c: &mut Cpu, m: M, op: Md, w: u8, b: u64) -> bool {
+    let lo = r(0, w);
+    let hi = if w == 8 { rh(0) } else { r(2, w) };
     let (a_lo, a_hi) = (c.read(lo), c.read(hi));
     let sx = |v: u64| -> i128 { sext(v, w, 64) as i64 as i128 };
     match op {
         Md::Mul | Md::Imul => {
             let p: u128 = if op == Md::Mul { (a_lo as u128) * (b as u128) } else { (sx(a_lo) * sx(b)) as u128 };
-            let (rl, rh) = ((p as u64) & wmask(w), ((p >> w) as u64) & wmask(w));
-            // 8-bit: AX = AL * src (ah = high half); wider: hi:lo
+            let (rl, rhv) = ((p as u64) & wmask(w), ((p >> w) as u64) & wmask(w));
             c.write(m, lo, rl);
-            c.write(m, hi, rh);
-            let over = if op == Md::Mul { rh != 0 } else { sx(rl) != (sx(a_lo) * sx(b)) };
+            c.write(m, hi, rhv);
+            let over = if op == Md::Mul { rhv != 0 } else { sx(rl) != (sx(a_lo) * sx(b)) };
             c.cf = over; c.of = over;
             true
         }
         Md::Div => {
             if b == 0 { return false; }
             let n: u128 = ((a_hi as u128) << w) | a_lo as u128;
-            let (q, r) = (n / b as u128, n % b as u128);
+            let (q, rem) = (n / b as u128, n % b as u128);
             if q > wmask(w) as u128 { return false; }
             c.write(m, lo, q as u64);
-            c.write(m, hi, r as u64);
+            c.write(m, hi, rem as u64);
             true
         }
         Md::Idiv => {
@@ -200,54 +558,205 @@ fn muldiv(c: &mut Cpu, m: M, op: Md, src: R) -> bool {
             let n: i128 = if w == 64 { (((a_hi as u128) << 64) | a_lo as u128) as i128 } else { sext(((a_hi << w) | a_lo) & wmask(2 * w), 2 * w, 64) as i64 as i128 };
             let d = sx(b);
             if n == i128::MIN && d == -1 { return false; }
-            let (q, r) = (n / d, n % d);
+            let (q, rem) = (n / d, n % d);
             let (minq, maxq) = (-(1i128 << (w - 1)), (1i128 << (w - 1)) - 1);
             if q < minq || q > maxq { return false; }
             c.write(m, lo, q as u64);
-            c.write(m, hi, r as u64);
+            c.write(m, hi, rem as u64);
             true
         }
     }
 }
 
 // ------------------------------------------------------------------ hand encoder
-/// prefixes for an instruction of operand size `w` whose ModRM.reg operand is `reg` (None for /digit) and
-/// ModRM.rm (or opcode+r) operand is `rm`; `other` = a further register operand that constrains REX (movzx source).
-fn prefixes(m: M, w: u8, reg: Option<R>, rm: R) -> Option<Vec<u8>> {
-    let ops: Vec<R> = reg.into_iter().chain(std::iter::once(rm)).collect();
-    let rex_w = w == 64;
-    let rex_r = reg.map(|r| r.ext()).unwrap_or(false);
-    let rex_b = rm.ext();
-    let need = rex_w || rex_r || rex_b || ops.iter().any(|r| r.needs_rex());
-    let forbid = ops.iter().any(|r| r.high);
-    if need && (forbid || m == M::X86) { return None; }
+#[derive(Clone, Copy)]
+enum RF { R(R), D(u8) }
+/// extra encoding options: rep prefix byte, `d64` = operand size defaults to 64 bit in long mode (push / pop / call / jmp: no REX.W)
+#[derive(Clone, Copy, Default)]
+struct X { rep: Option<u8>, d64: bool }
+
+fn le(v: u64, n: usize) -> Vec<u8> { (0..n).map(|i| (v >> (8 * i)) as u8).collect() }
+fn imm_bytes(v: u64, n: usize) -> Vec<u8> { le(v, n) }
+
+/// ModRM (+ SIB + displacement) of a memory operand; returns (bytes, REX.X, REX.B, offset of a RIP-relative disp32)
+fn modrm_mem(m: M, reg: u8, mr: &MemRef) -> Option<(Vec<u8>, bool, bool, Option<usize>)> {
+    let disp = |n: u8| -> Vec<u8> { le(mr.disp as u64, n as usize) };
+    if mr.aw == 16 {
+        if m != M::X86 { return None; }
+        let rm = match (mr.base, mr.index) {
+            (Some(3), Some((6, 1))) => 0, (Some(3), Some((7, 1))) => 1, (Some(5), Some((6, 1))) => 2, (Some(5), Some((7, 1))) => 3,
+            (Some(6), None) => 4, (Some(7), None) => 5, (Some(5), None) => 6, (Some(3), None) => 7,
+            (None, None) => { if mr.dsz != 2 { return None; } let mut t = vec![(reg << 3) | 6]; t.extend(disp(2)); return Some((t, false, false, None)); }
+            _ => return None,
+        };
+        let md = match mr.dsz { 0 => { if rm == 6 { return None; } 0 } 1 => 1, 2 => 2, _ => return None };
+        let mut t = vec![(md << 6) | (reg << 3) | rm];
+        t.extend(disp(mr.dsz));
+        return Some((t, false, false, None));
+    }
+    if m == M::X86 && (mr.base.map(|b| b >= 8).unwrap_or(false) || mr.index.map(|i| i.0 >= 8).unwrap_or(false)) { return None; }
+    if mr.rip {
+        if m != M::Amd64 || mr.base.is_some() || mr.index.is_some() { return None; }
+        return Some((vec![(reg << 3) | 5, 0, 0, 0, 0], false, false, Some(1)));
+    }
+    let md = |b: u8| -> Option<u8> { match mr.dsz { 0 => if b & 7 == 5 { None } else { Some(0) }, 1 => Some(1), 4 => Some(2), _ => None } };
+    let ss = |s: u8| -> Option<u8> { match s { 1 => Some(0), 2 => Some(1), 4 => Some(2), 8 => Some(3), _ => None } };
+    match (mr.base, mr.index) {
+        (None, None) => {
+            if mr.dsz != 4 { return None; }
+            let mut t = if m == M::X86 && !mr.sib { vec![(reg << 3) | 5] } else { vec![(reg << 3) | 4, 0x25] };
+            t.extend(disp(4));
+            Some((t, false, false, None))
+        }
+        (Some(b), None) => {
+            let md = md(b)?;
+            let mut t = if !mr.sib && b & 7 != 4 { vec![(md << 6) | (reg << 3) | (b & 7)] } else { vec![(md << 6) | (reg << 3) | 4, (4 << 3) | (b & 7)] };
+            t.extend(disp(mr.dsz));
+            Some((t, false, b >= 8, None))
+        }
+        (Some(b), Some((i, s))) => {
+            if i == 4 { return None; }
+            let md = md(b)?;
+            let mut t = vec![(md << 6) | (reg << 3) | 4, (ss(s)? << 6) | ((i & 7) << 3) | (b & 7)];
+            t.extend(disp(mr.dsz));
+            Some((t, i >= 8, b >= 8, None))
+        }
+        (None, Some((i, s))) => {
+            if i == 4 || mr.dsz != 4 { return None; }
+            let mut t = vec![(reg << 3) | 4, (ss(s)? << 6) | ((i & 7) << 3) | 5];
+            t.extend(disp(4));
+            Some((t, i >= 8, false, None))
+        }
+    }
+}
+
+/// [rep][seg][67][66][REX] opcode modrm.. imm for an instruction of operand size `w`
+fn enc(m: M, w: u8, opc: &[u8], rf: RF, rm: &Op, imm: &[u8], x: X) -> Option<Vec<u8>> {
+    let mut rex = 0u8;
+    let (mut need_rex, mut no_rex) = (false, false);
+    if w == 64 { if m == M::X86 { return None; } if !x.d64 { rex |= 8; } }
+    let mut chk = |x: &R| -> bool { if x.needs_rex() { need_rex = true; } if x.high { no_rex = true; } !(m == M::X86 && (x.w == 64 || x.idx >= 8 || x.needs_rex())) };
+    let regbits = match rf { RF::R(x) => { if !chk(&x) { return None; } if x.ext() { rex |= 4; } x.enc() } RF::D(d) => d };
+    let mut pre: Vec<u8> = Vec::new();
+    if let Some(p) = x.rep { pre.push(p); }
+    let tail: Vec<u8>;
+    let mut rip: Option<(usize, u64)> = None;
+    match rm {
+        Op::R(x) => { if !chk(x) { return None; } if x.ext() { rex |= 1; } tail = vec![0xC0 | (regbits << 3) | x.enc()]; }
+        Op::M(mr, _) => {
+            if let Some(p) = mr.seg.prefix() { pre.push(p); }
+            if mr.aw != m.bits() { if (m == M::X86 && mr.aw == 16) || (m == M::Amd64 && mr.aw == 32) { pre.push(0x67); } else { return None; } }
+            let (t, xb, bb, ra) = modrm_mem(m, regbits, mr)?;
+            if xb { rex |= 2; }
+            if bb { rex |= 1; }
+            if let Some(o) = ra { rip = Some((o, mr.disp as u64)); }
+            tail = t;
+        }
+        Op::I(_) => return None,
+    }
+    if w == 16 { pre.push(0x66); }
+    if rex != 0 || need_rex { if no_rex || m == M::X86 { return None; } pre.push(0x40 | rex); }
+    let mut v = pre;
+    v.extend_from_slice(opc);
+    let tail_at = v.len();
+    v.extend(tail);
+    v.extend_from_slice(imm);
+    if let Some((o, target)) = rip {
+        let rel = target.wrapping_sub(CODE + v.len() as u64) as i64;
+        if rel < i32::MIN as i64 || rel > i32::MAX as i64 { return None; }
+        for (k, b) in le(rel as u64, 4).into_iter().enumerate() { v[tail_at + o + k] = b; }
+    }
+    Some(v)
+}
+fn rr(m: M, w: u8, opc: &[u8], reg: R, rm: R) -> Option<Vec<u8>> { enc(m, w, opc, RF::R(reg), &Op::R(rm), &[], X::default()) }
+fn digit(m: M, w: u8, opc: &[u8], d: u8, rm: R) -> Option<Vec<u8>> { enc(m, w, opc, RF::D(d), &Op::R(rm), &[], X::default()) }
+/// prefixes of an instruction without ModRM whose only register operand (if any) is `x` (opcode + r forms, accumulator short forms)
+fn prefixes(m: M, w: u8, x: Option<R>, d64: bool) -> Option<Vec<u8>> {
+    let mut rex = 0u8;
+    let mut need = false;
+    if w == 64 { if m == M::X86 { return None; } if !d64 { rex |= 8; } }
+    if let Some(x) = x {
+        if m == M::X86 && (x.w == 64 || x.idx >= 8 || x.needs_rex()) { return None; }
+        if x.ext() { rex |= 1; }
+        if x.needs_rex() { need = true; }
+        if x.high && (rex != 0 || need) { return None; }
+    }
     let mut v = Vec::new();
     if w == 16 { v.push(0x66); }
-    if need { v.push(0x40 | ((rex_w as u8) << 3) | ((rex_r as u8) << 2) | (rex_b as u8)); }
+    if rex != 0 || need { if m == M::X86 { return None; } v.push(0x40 | rex); }
     Some(v)
 }
-fn rr(m: M, w: u8, opc: &[u8], reg: R, rm: R) -> Option<Vec<u8>> {
-    let mut v = prefixes(m, w, Some(reg), rm)?;
-    v.extend_from_slice(opc);
-    v.push(0xC0 | (reg.enc() << 3) | rm.enc());
-    Some(v)
-}
-fn digit(m: M, w: u8, opc: &[u8], d: u8, rm: R) -> Option<Vec<u8>> {
-    let mut v = prefixes(m, w, None, rm)?;
-    v.extend_from_slice(opc);
-    v.push(0xC0 | (d << 3) | rm.enc());
-    Some(v)
-}
-fn plus_r(m: M, w: u8, base: u8, r: R) -> Option<Vec<u8>> {
-    let mut v = prefixes(m, w, None, r)?;
-    v.push(base + r.enc());
-    Some(v)
-}
-fn imm_bytes(v: u64, n: usize) -> Vec<u8> { (0..n).map(|i| (v >> (8 * i)) as u8).collect() }
+fn plus_r(m: M, w: u8, base: u8, x: R) -> Option<Vec<u8>> { let mut v = prefixes(m, w, Some(x), false)?; v.push(base + x.enc()); Some(v) }
+fn plus_r64(m: M, w: u8, base: u8, x: R) -> Option<Vec<u8>> { let mut v = prefixes(m, w, Some(x), true)?; v.push(base + x.enc()); Some(v) }
+fn with(mut v: Vec<u8>, more: &[u8]) -> Vec<u8> { v.extend_from_slice(more); v }
 
-struct Case { op: &'static str, asm: String, bytes: Vec<u8>, sem: Sem, kind: Kind }
-#[derive(Clone, Copy, PartialEq)]
-enum Kind { Move, Alu2, Alu1, MulDiv }
+// ------------------------------------------------------------------ cases
+/// a state = a base state + a patch: full-register values, sub-register pokes, memory (linear address, bytes, value), flags
+/// (bit0 CF, bit1 ZF, bit2 SF, bit3 OF, bit4 PF), DF
+#[derive(Clone, Default, Debug)]
+struct Patch { full: Vec<(u8, u64)>, regs: Vec<(R, u64)>, mem: Vec<(u64, u8, u64)>, fl: Option<u8>, df: Option<bool> }
+impl Patch {
+    fn merge(&self, o: &Patch) -> Patch {
+        let mut p = self.clone();
+        p.full.extend(o.full.iter().cloned()); p.regs.extend(o.regs.iter().cloned()); p.mem.extend(o.mem.iter().cloned());
+        if o.fl.is_some() { p.fl = o.fl; }
+        if o.df.is_some() { p.df = o.df; }
+        p
+    }
+}
+fn pfull(v: &[(u8, u64)]) -> Patch { Patch { full: v.to_vec(), ..Default::default() } }
+fn preg(x: R, v: u64) -> Patch { Patch { regs: vec![(x, v)], ..Default::default() } }
+fn pmem(a: u64, w: u8, v: u64) -> Patch { Patch { mem: vec![(a, w / 8, v)], ..Default::default() } }
+fn pfl(f: u8) -> Patch { Patch { fl: Some(f), ..Default::default() } }
+/// the value of operand `o` (register poke or memory at linear address `t`)
+fn pop_(o: &Op, t: u64, v: u64) -> Patch { match o { Op::R(x) => preg(*x, v), Op::M(_, w) => pmem(t, *w, v & wmask(*w)), Op::I(_) => Patch::default() } }
+fn cross(a: &[Patch], b: &[Patch]) -> Vec<Patch> { let mut v = Vec::new(); for x in a { for y in b { v.push(x.merge(y)); } } v }
+
+struct Case { op: String, rel: &'static str, asm: String, bytes: Vec<u8>, sem: I, bases: &'static [u8], states: Vec<Patch> }
+
+fn apply(m: M, base: &Cpu, p: &Patch) -> Cpu {
+    let mut c = base.clone();
+    for &(i, v) in &p.full { c.r[i as usize] = v & m.mask(); }
+    for &(x, v) in &p.regs { c.poke(m, x, v); }
+    for &(a, n, v) in &p.mem { for i in 0..n as u64 { c.mem.insert(a.wrapping_add(i) & m.mask(), (v >> (8 * i)) as u8); } }
+    if let Some(f) = p.fl { c.cf = f & 1 != 0; c.zf = f & 2 != 0; c.sf = f & 4 != 0; c.of = f & 8 != 0; c.pf = f & 16 != 0; }
+    if let Some(d) = p.df { c.df = d; }
+    c
+}
+
+fn base_states(m: M) -> Vec<Cpu> {
+    let z = Cpu { r: [0; 16], cf: false, zf: true, sf: false, of: true, df: true, pf: false, fs: FS_BASE, gs: GS_BASE, mem: BTreeMap::new() };
+    let mut a = z.clone();
+    for i in 0..16 { a.r[i] = 0x1122_3344_5566_7788u64.rotate_left(4 * i as u32) ^ (0x0101_0101_0101_0101u64.wrapping_mul(i as u64)); }
+    let b = Cpu { r: [u64::MAX; 16], cf: true, zf: false, sf: true, of: false, df: false, ..z.clone() };
+    let mut c = Cpu { cf: true, zf: true, sf: true, of: true, df: false, ..z.clone() };
+    for i in 0..16 { c.r[i] = if i % 2 == 0 { 0x8000_0000_8000_8080 } else { 0x7fff_ffff_7fff_7f7f }; }
+    // base state 3: the one used by the memory / control-flow / string groups (valid stack pointer, DF = 0)
+    let mut d = a.clone();
+    d.r[4] = STACK; d.df = false; d.pf = true;
+    let mut v = vec![a, b, c, d];
+    if m == M::X86 { for s in v.iter_mut() { for i in 0..16 { s.r[i] = if i < 8 { s.r[i] & 0xffff_ffff } else { 0 }; } } }
+    v
+}
+
+struct G { m: M, thorough: bool, out: Vec<Case> }
+impl G {
+    fn add(&mut self, op: &str, rel: &'static str, asm: String, bytes: Option<Vec<u8>>, sem: I, bases: &'static [u8], states: Vec<Patch>) {
+        if let Some(bytes) = bytes { self.out.push(Case { op: op.to_string(), rel, asm, bytes, sem, bases, states }); }
+    }
+}
+const B012: &[u8] = &[0, 1, 2];
+const B0: &[u8] = &[0];
+const B3: &[u8] = &[3];
+const REL_MOVE: &str = "[\"set\",\"get\",\"get_register\"]";
+const REL_ALU2: &str = "[\"set\",\"get\",\"get_register\",\"set_zf\",\"set_sf\",\"set_of\",\"set_cf\"]";
+const REL_ALU1: &str = "[\"set\",\"get\",\"get_register\",\"set_zf\",\"set_sf\",\"set_of\"]";
+const REL_MEM: &str = "[\"operand_value\",\"operand_load\",\"operand_store\",\"get_register_expression\",\"set\",\"get\"]";
+const REL_STACK: &str = "[\"push_value\",\"pop_value\",\"operand_value\",\"operand_load\",\"operand_store\"]";
+const REL_CC: &str = "[\"cc_condition\",\"cjmp\",\"setcc\",\"cmovcc\",\"translate_block\"]";
+const REL_LOOP: &str = "[\"loop_condition\",\"loop_\",\"cc_condition\",\"translate_block\"]";
+const REL_STR: &str = "[\"rep_prefix\",\"repne_prefix\",\"movs\",\"stos\",\"lodsb\",\"lodsd\",\"scasb\",\"scasw\",\"cmpsb\",\"translate_block\"]";
+const REL_INT: &str = "[\"set\",\"get\",\"operand_load\",\"operand_store\",\"set_zf\",\"set_sf\",\"set_of\",\"set_cf\"]";
 
 fn boundary(w: u8) -> Vec<u64> {
     let m = wmask(w);
@@ -257,161 +766,751 @@ fn imm_values(w: u8) -> Vec<u64> {
     let m = wmask(w);
     vec![0, 1, 0x12 & m, 0x1234_5678_9abc_def0 & m, m >> 1, (m >> 1) + 1, m]
 }
+fn widths(m: M) -> &'static [u8] { if m == M::X86 { &[8, 16, 32] } else { &[8, 16, 32, 64] } }
 
-fn cases(m: M) -> Vec<Case> {
-    let mut out: Vec<Case> = Vec::new();
-    let widths: &[u8] = if m == M::X86 { &[8, 16, 32] } else { &[8, 16, 32, 64] };
-    let mut push = |op: &'static str, asm: String, bytes: Option<Vec<u8>>, sem: Sem, kind: Kind| {
-        if let Some(bytes) = bytes { out.push(Case { op, asm, bytes, sem, kind }); }
-    };
-    for &w in widths {
+// ------------------------------------------------------------------ group "old": register / immediate forms on every register name
+fn alu_name(a: Alu) -> &'static str { match a { Alu::Add => "add", Alu::Or => "or", Alu::Adc => "adc", Alu::Sbb => "sbb", Alu::And => "and", Alu::Sub => "sub", Alu::Xor => "xor", Alu::Cmp => "cmp", Alu::Test => "test" } }
+fn pairs_states(d: R, s: Option<R>) -> Vec<Patch> {
+    let mut v = Vec::new();
+    for a in boundary(d.w) {
+        match s {
+            Some(sr) => for b in boundary(sr.w) { v.push(Patch { regs: vec![(sr, b), (d, a)], ..Default::default() }); },
+            None => v.push(preg(d, a)),
+        }
+    }
+    v
+}
+fn grp_old(g: &mut G) {
+    let m = g.m;
+    for &w in widths(m) {
         let rs = regs(m, w);
-        let (o8, ow) = (w == 8, w != 8);
-        let _ = ow;
-        // ---- mov r, imm (B0+r / B8+r) and mov r/m, imm (C6 /0, C7 /0)
+        let o8 = w == 8;
         for &d in &rs {
             for v in imm_values(w) {
                 let n = (w / 8) as usize;
-                let b = plus_r(m, w, if o8 { 0xB0 } else { 0xB8 }, d).map(|mut b| { b.extend(imm_bytes(v, n)); b });
-                push("mov_r_imm", format!("mov {}, 0x{:x}", d.name(), v), b, Sem::MovImm(d, v), Kind::Move);
+                let b = plus_r(m, w, if o8 { 0xB0 } else { 0xB8 }, d).map(|b| with(b, &imm_bytes(v, n)));
+                g.add("mov_r_imm", REL_MOVE, format!("mov {}, 0x{:x}", d.name(), v), b, I::Mov(Op::R(d), Op::I(v)), B012, vec![Patch::default()]);
             }
             for v in imm_values(if w == 64 { 32 } else { w }) {
                 let n = if w == 64 { 4 } else { (w / 8) as usize };
                 let val = if w == 64 { sext(v, 32, 64) } else { v };
-                let b = digit(m, w, &[if o8 { 0xC6 } else { 0xC7 }], 0, d).map(|mut b| { b.extend(imm_bytes(v, n)); b });
-                push("mov_rm_imm", format!("mov {}, 0x{:x} (C6/C7)", d.name(), val), b, Sem::MovImm(d, val), Kind::Move);
+                let b = digit(m, w, &[if o8 { 0xC6 } else { 0xC7 }], 0, d).map(|b| with(b, &imm_bytes(v, n)));
+                g.add("mov_rm_imm", REL_MOVE, format!("mov {}, 0x{:x} (C6/C7)", d.name(), val), b, I::Mov(Op::R(d), Op::I(val)), B012, vec![Patch::default()]);
             }
         }
-        // ---- mov r/m, r (88/89) ; mov r, r/m (8A/8B) ; xchg (86/87) ; add/sub/cmp r/m, r and r, r/m
         for &a in &rs {
             for &b in &rs {
-                push("mov_rm_r", format!("mov {}, {}", a.name(), b.name()), rr(m, w, &[if o8 { 0x88 } else { 0x89 }], b, a), Sem::Mov(a, b), Kind::Move);
-                push("mov_r_rm", format!("mov {}, {} (8A/8B)", a.name(), b.name()), rr(m, w, &[if o8 { 0x8A } else { 0x8B }], a, b), Sem::Mov(a, b), Kind::Move);
-                push("xchg", format!("xchg {}, {}", a.name(), b.name()), rr(m, w, &[if o8 { 0x86 } else { 0x87 }], b, a), Sem::Xchg(a, b), Kind::Move);
-                for (op, name, base) in [(Alu::Add, "add", 0x00u8), (Alu::Sub, "sub", 0x28), (Alu::Cmp, "cmp", 0x38)] {
-                    let opname: &'static str = match op { Alu::Add => "add", Alu::Sub => "sub", Alu::Cmp => "cmp" };
-                    push(opname, format!("{} {}, {}", name, a.name(), b.name()), rr(m, w, &[base + if o8 { 0 } else { 1 }], b, a), Sem::Alu(op, a, Src::Reg(b)), Kind::Alu2);
-                    // the reverse encoding for a thinner slice (same destination index parity) keeps the run time down
+                g.add("mov_rm_r", REL_MOVE, format!("mov {}, {}", a.name(), b.name()), rr(m, w, &[if o8 { 0x88 } else { 0x89 }], b, a), I::Mov(Op::R(a), Op::R(b)), B012, vec![Patch::default()]);
+                g.add("mov_r_rm", REL_MOVE, format!("mov {}, {} (8A/8B)", a.name(), b.name()), rr(m, w, &[if o8 { 0x8A } else { 0x8B }], a, b), I::Mov(Op::R(a), Op::R(b)), B012, vec![Patch::default()]);
+                g.add("xchg", REL_MOVE, format!("xchg {}, {}", a.name(), b.name()), rr(m, w, &[if o8 { 0x86 } else { 0x87 }], b, a), I::Xchg(Op::R(a), Op::R(b)), B012, vec![Patch::default()]);
+                for (op, base) in [(Alu::Add, 0x00u8), (Alu::Sub, 0x28), (Alu::Cmp, 0x38)] {
+                    let name = alu_name(op);
+                    g.add(name, REL_ALU2, format!("{} {}, {}", name, a.name(), b.name()), rr(m, w, &[base + if o8 { 0 } else { 1 }], b, a), I::Alu(op, Op::R(a), Op::R(b)), B0, pairs_states(a, Some(b)));
                     if a.idx % 3 == 0 {
-                        push(opname, format!("{} {}, {} (r, r/m form)", name, a.name(), b.name()), rr(m, w, &[base + if o8 { 2 } else { 3 }], a, b), Sem::Alu(op, a, Src::Reg(b)), Kind::Alu2);
+                        g.add(name, REL_ALU2, format!("{} {}, {} (r, r/m form)", name, a.name(), b.name()), rr(m, w, &[base + if o8 { 2 } else { 3 }], a, b), I::Alu(op, Op::R(a), Op::R(b)), B0, pairs_states(a, Some(b)));
                     }
                 }
             }
         }
-        // ---- xchg eAX, r (90+r), not the nop encoding
         if !o8 {
-            let acc = R { idx: 0, w, high: false };
+            let acc = r(0, w);
             for &b in &rs {
                 if b.idx == 0 { continue; }
-                push("xchg", format!("xchg {}, {} (90+r)", acc.name(), b.name()), plus_r(m, w, 0x90, b), Sem::Xchg(acc, b), Kind::Move);
+                g.add("xchg", REL_MOVE, format!("xchg {}, {} (90+r)", acc.name(), b.name()), plus_r(m, w, 0x90, b), I::Xchg(Op::R(acc), Op::R(b)), B012, vec![Patch::default()]);
             }
         }
-        // ---- immediate forms of add / sub / cmp: 80 /d ib ; 81 /d iw|id ; 83 /d ib (sign-extended) ; short forms on the accumulator
         for &d in &rs {
-            for (op, name, dg, short) in [(Alu::Add, "add", 0u8, 0x04u8), (Alu::Sub, "sub", 5, 0x2C), (Alu::Cmp, "cmp", 7, 0x3C)] {
-                let opname: &'static str = match op { Alu::Add => "add", Alu::Sub => "sub", Alu::Cmp => "cmp" };
+            for (op, dg, short) in [(Alu::Add, 0u8, 0x04u8), (Alu::Sub, 5, 0x2C), (Alu::Cmp, 7, 0x3C)] {
+                let name = alu_name(op);
                 if o8 {
                     for v in boundary(8) {
-                        push(opname, format!("{} {}, 0x{:x}", name, d.name(), v), digit(m, 8, &[0x80], dg, d).map(|mut b| { b.push(v as u8); b }), Sem::Alu(op, d, Src::Imm(v)), Kind::Alu2);
+                        g.add(name, REL_ALU2, format!("{} {}, 0x{:x}", name, d.name(), v), digit(m, 8, &[0x80], dg, d).map(|b| with(b, &[v as u8])), I::Alu(op, Op::R(d), Op::I(v)), B0, pairs_states(d, None));
                         if d.idx == 0 && !d.high {
-                            push(opname, format!("{} al, 0x{:x} (short form)", name, v), Some(vec![short, v as u8]), Sem::Alu(op, d, Src::Imm(v)), Kind::Alu2);
+                            g.add(name, REL_ALU2, format!("{} al, 0x{:x} (short form)", name, v), Some(vec![short, v as u8]), I::Alu(op, Op::R(d), Op::I(v)), B0, pairs_states(d, None));
                         }
                     }
                 } else {
                     for v in boundary(8) {
                         let val = sext(v, 8, w);
-                        push(opname, format!("{} {}, 0x{:x} (83, imm8 sign-extended)", name, d.name(), val), digit(m, w, &[0x83], dg, d).map(|mut b| { b.push(v as u8); b }), Sem::Alu(op, d, Src::Imm(val)), Kind::Alu2);
+                        g.add(name, REL_ALU2, format!("{} {}, 0x{:x} (83, imm8 sign-extended)", name, d.name(), val), digit(m, w, &[0x83], dg, d).map(|b| with(b, &[v as u8])), I::Alu(op, Op::R(d), Op::I(val)), B0, pairs_states(d, None));
                     }
                     let iw = if w == 64 { 32 } else { w };
                     for v in boundary(iw) {
                         let val = sext(v, iw, w);
                         let n = (iw / 8) as usize;
-                        push(opname, format!("{} {}, 0x{:x} (81)", name, d.name(), val), digit(m, w, &[0x81], dg, d).map(|mut b| { b.extend(imm_bytes(v, n)); b }), Sem::Alu(op, d, Src::Imm(val)), Kind::Alu2);
+                        g.add(name, REL_ALU2, format!("{} {}, 0x{:x} (81)", name, d.name(), val), digit(m, w, &[0x81], dg, d).map(|b| with(b, &imm_bytes(v, n))), I::Alu(op, Op::R(d), Op::I(val)), B0, pairs_states(d, None));
                         if d.idx == 0 {
-                            let b = prefixes(m, w, None, d).map(|mut b| { b.push(short + 1); b.extend(imm_bytes(v, n)); b });
-                            push(opname, format!("{} {}, 0x{:x} (short form)", name, d.name(), val), b, Sem::Alu(op, d, Src::Imm(val)), Kind::Alu2);
+                            let b = prefixes(m, w, Some(d), false).map(|b| with(with(b, &[short + 1]), &imm_bytes(v, n)));
+                            g.add(name, REL_ALU2, format!("{} {}, 0x{:x} (short form)", name, d.name(), val), b, I::Alu(op, Op::R(d), Op::I(val)), B0, pairs_states(d, None));
                         }
                     }
                 }
             }
-            // ---- inc / dec / neg
-            push("inc", format!("inc {}", d.name()), digit(m, w, &[if o8 { 0xFE } else { 0xFF }], 0, d), Sem::Un(Un::Inc, d), Kind::Alu1);
-            push("dec", format!("dec {}", d.name()), digit(m, w, &[if o8 { 0xFE } else { 0xFF }], 1, d), Sem::Un(Un::Dec, d), Kind::Alu1);
-            push("neg", format!("neg {}", d.name()), digit(m, w, &[if o8 { 0xF6 } else { 0xF7 }], 3, d), Sem::Un(Un::Neg, d), Kind::Alu1);
+            let un_states: Vec<Patch> = boundary(w).into_iter().flat_map(|a| [0u8, 1].into_iter().map(move |cf| (a, cf))).map(|(a, cf)| Patch { regs: vec![(d, a)], fl: Some(cf | 2 | 8), ..Default::default() }).collect();
+            g.add("inc", REL_ALU1, format!("inc {}", d.name()), digit(m, w, &[if o8 { 0xFE } else { 0xFF }], 0, d), I::Un(Un::Inc, Op::R(d)), B0, un_states.clone());
+            g.add("dec", REL_ALU1, format!("dec {}", d.name()), digit(m, w, &[if o8 { 0xFE } else { 0xFF }], 1, d), I::Un(Un::Dec, Op::R(d)), B0, un_states.clone());
+            g.add("neg", REL_ALU1, format!("neg {}", d.name()), digit(m, w, &[if o8 { 0xF6 } else { 0xF7 }], 3, d), I::Un(Un::Neg, Op::R(d)), B0, un_states.clone());
             if m == M::X86 && !o8 {
-                push("inc", format!("inc {} (40+r)", d.name()), plus_r(m, w, 0x40, d), Sem::Un(Un::Inc, d), Kind::Alu1);
-                push("dec", format!("dec {} (48+r)", d.name()), plus_r(m, w, 0x48, d), Sem::Un(Un::Dec, d), Kind::Alu1);
+                g.add("inc", REL_ALU1, format!("inc {} (40+r)", d.name()), plus_r(m, w, 0x40, d), I::Un(Un::Inc, Op::R(d)), B0, un_states.clone());
+                g.add("dec", REL_ALU1, format!("dec {} (48+r)", d.name()), plus_r(m, w, 0x48, d), I::Un(Un::Dec, Op::R(d)), B0, un_states.clone());
             }
         }
-        // ---- one-operand mul / imul / div / idiv (F6 /4../7, F7 /4../7) on the accumulator pair
         for &d in &rs {
+            let lo = r(0, w);
+            let hi = if w == 8 { rh(0) } else { r(2, w) };
+            let mut st = Vec::new();
+            for b in boundary(w).into_iter().chain([3u64, 0x10]) { for a in boundary(w).into_iter().chain([7u64, 0x64]) { for h in [0u64, 1, 2, wmask(w), wmask(w) >> 1] {
+                st.push(Patch { regs: vec![(lo, a), (hi, h), (d, b)], ..Default::default() });
+            } } }
             for (op, name, dg) in [(Md::Mul, "mul", 4u8), (Md::Imul, "imul", 5), (Md::Div, "div", 6), (Md::Idiv, "idiv", 7)] {
-                let opname: &'static str = match op { Md::Mul => "mul", Md::Imul => "imul", Md::Div => "div", Md::Idiv => "idiv" };
-                push(opname, format!("{} {}", name, d.name()), digit(m, w, &[if o8 { 0xF6 } else { 0xF7 }], dg, d), Sem::MulDiv(op, d), Kind::MulDiv);
+                g.add(name, REL_MOVE, format!("{} {}", name, d.name()), digit(m, w, &[if o8 { 0xF6 } else { 0xF7 }], dg, d), I::MulDiv(op, Op::R(d)), B0, st.clone());
             }
         }
-        // ---- movzx / movsx from 8- and 16-bit registers into this width ; movsxd
         if !o8 {
             for &sw in &[8u8, 16u8] {
                 if sw >= w { continue; }
                 for &d in &rs {
                     for &s in &regs(m, sw) {
-                        push("movzx", format!("movzx {}, {}", d.name(), s.name()), rr(m, w, &[0x0F, if sw == 8 { 0xB6 } else { 0xB7 }], d, s), Sem::Movzx(d, s), Kind::Move);
-                        push("movsx", format!("movsx {}, {}", d.name(), s.name()), rr(m, w, &[0x0F, if sw == 8 { 0xBE } else { 0xBF }], d, s), Sem::Movsx(d, s), Kind::Move);
+                        g.add("movzx", REL_MOVE, format!("movzx {}, {}", d.name(), s.name()), rr(m, w, &[0x0F, if sw == 8 { 0xB6 } else { 0xB7 }], d, s), I::Movzx(Op::R(d), Op::R(s)), B012, vec![Patch::default()]);
+                        g.add("movsx", REL_MOVE, format!("movsx {}, {}", d.name(), s.name()), rr(m, w, &[0x0F, if sw == 8 { 0xBE } else { 0xBF }], d, s), I::Movsx(Op::R(d), Op::R(s)), B012, vec![Patch::default()]);
                     }
                 }
             }
             if w == 64 {
                 for &d in &rs {
                     for &s in &regs(m, 32) {
-                        push("movsxd", format!("movsxd {}, {}", d.name(), s.name()), rr(m, 64, &[0x63], d, s), Sem::Movsx(d, s), Kind::Move);
+                        g.add("movsxd", REL_MOVE, format!("movsxd {}, {}", d.name(), s.name()), rr(m, 64, &[0x63], d, s), I::Movsx(Op::R(d), Op::R(s)), B012, vec![Patch::default()]);
                     }
                 }
             }
         }
     }
+}
+
+// ------------------------------------------------------------------ group "mem": every addressing form x segment override
+/// a memory-operand form (segment to be filled in) with alternative assignments of its address registers that all make the
+/// effective address `t` (registers wider than the address width carry garbage above it)
+#[derive(Clone)]
+struct Form { mr: MemRef, plans: Vec<Patch>, t: u64 }
+
+fn forms(m: M, aw: u8, rich: bool) -> Vec<Form> {
+    let mut out = Vec::new();
+    let am = wmask(aw);
+    let t = if aw == 16 { T16 } else { T32 };
+    let hi: u64 = if aw < m.bits() { if aw == 16 { 0xBEEF_0000 } else { 0xDEAD_BEEF_0000_0000 } } else { 0 };
+    let mk = |base: Option<u8>, index: Option<(u8, u8)>, disp: i64, dsz: u8, sib: bool| MemRef { seg: Seg::None, aw, base, index, disp, dsz, rip: false, sib };
+    let ivs: [u64; 2] = [0x10, 0x40u64.wrapping_neg() & am];
+    // plans for base (+ index): base = t - index*scale - disp
+    let plan = |base: u8, index: Option<(u8, u8)>, disp: i64| -> Vec<Patch> {
+        match index {
+            None => vec![pfull(&[(base, (t.wrapping_sub(disp as u64) & am) | hi)])],
+            Some((i, s)) => ivs.iter().map(|&iv| pfull(&[(i, iv | hi), (base, (t.wrapping_sub(iv.wrapping_mul(s as u64)).wrapping_sub(disp as u64) & am) | hi)])).collect(),
+        }
+    };
+    if aw == 16 {
+        let combos: [(Option<u8>, Option<(u8, u8)>); 8] = [(Some(3), Some((6, 1))), (Some(3), Some((7, 1))), (Some(5), Some((6, 1))), (Some(5), Some((7, 1))), (Some(6), None), (Some(7), None), (Some(5), None), (Some(3), None)];
+        for (b, i) in combos {
+            for (dsz, disps) in [(0u8, vec![0i64]), (1, vec![0x7f, -0x80]), (2, vec![0x1234, -0x1234])] {
+                for d in disps {
+                    let mr = mk(b, i, d, dsz, false);
+                    out.push(Form { mr, plans: plan(b.unwrap(), i, d), t });
+                }
+            }
+        }
+        out.push(Form { mr: mk(None, None, t as i64, 2, false), plans: vec![Patch::default()], t });
+        return out;
+    }
+    let bases: Vec<u8> = if m == M::X86 { vec![0, 3, 4, 5, 6] } else { vec![0, 3, 4, 5, 6, 8, 12, 13] };
+    for &b in &bases {
+        if b & 7 == 5 { out.push(Form { mr: mk(Some(b), None, 0, 1, false), plans: plan(b, None, 0), t }); out.push(Form { mr: mk(Some(b), None, 0, 4, false), plans: plan(b, None, 0), t }); }
+        else { out.push(Form { mr: mk(Some(b), None, 0, 0, false), plans: plan(b, None, 0), t }); }
+        if b == 0 || b == 6 || b == 8 { continue; }
+        for d in [0x7fi64, -0x80] { out.push(Form { mr: mk(Some(b), None, d, 1, false), plans: plan(b, None, d), t }); }
+        for d in [0x12345i64, -0x12345] { out.push(Form { mr: mk(Some(b), None, d, 4, false), plans: plan(b, None, d), t }); }
+    }
+    // a SIB byte without index
+    out.push(Form { mr: mk(Some(3), None, 0, 0, true), plans: plan(3, None, 0), t });
+    out.push(Form { mr: mk(Some(3), None, -0x80, 1, true), plans: plan(3, None, -0x80), t });
+    let pairs: Vec<(u8, u8)> = if m == M::X86 { vec![(3, 1), (5, 6), (4, 5), (0, 3)] } else { vec![(3, 1), (5, 6), (4, 5), (13, 12), (12, 13), (8, 9), (3, 12)] };
+    for &(b, i) in &pairs {
+        for s in [1u8, 2, 4, 8] {
+            let (dsz, d) = if b & 7 == 5 { (1, 0) } else { (0, 0) };
+            out.push(Form { mr: mk(Some(b), Some((i, s)), d, dsz, false), plans: plan(b, Some((i, s)), d), t });
+            if !rich && s != 2 && s != 8 { continue; }
+            out.push(Form { mr: mk(Some(b), Some((i, s)), -0x80, 1, false), plans: plan(b, Some((i, s)), -0x80), t });
+            out.push(Form { mr: mk(Some(b), Some((i, s)), 0x12345, 4, false), plans: plan(b, Some((i, s)), 0x12345), t });
+        }
+    }
+    // no base: index*scale + disp32 (displacement chosen per index value)
+    let idxs: Vec<u8> = if m == M::X86 { vec![1, 5] } else { vec![1, 5, 12, 13] };
+    for &i in &idxs {
+        for s in [1u8, 2, 4, 8] {
+            for iv in [0x40u64, 0x40u64.wrapping_neg() & am] {
+                let d = t.wrapping_sub(iv.wrapping_mul(s as u64)) & am;
+                let d = sext(d, aw.min(32), 64) as i64; // disp32 is sign-extended to the address width
+                if (d as u64).wrapping_add(iv.wrapping_mul(s as u64)) & am != t { continue; }
+                out.push(Form { mr: mk(None, Some((i, s)), d, 4, false), plans: vec![pfull(&[(i, iv | hi)])], t });
+            }
+        }
+    }
+    // absolute
+    out.push(Form { mr: mk(None, None, t as i64, 4, false), plans: vec![Patch::default()], t });
+    out.push(Form { mr: mk(None, None, t as i64, 4, true), plans: vec![Patch::default()], t });
+    if m == M::Amd64 && aw == 64 {
+        out.push(Form { mr: MemRef { seg: Seg::None, aw, base: None, index: None, disp: t as i64, dsz: 4, rip: true, sib: false }, plans: vec![Patch::default()], t });
+    }
     out
 }
 
+fn val1(w: u8) -> u64 { 0x8877_6655_4433_2211 & wmask(w) }
+fn val2(w: u8) -> u64 { 0x7F01_80FE_C3A5_E1F0 & wmask(w) }
+fn alu_pairs(w: u8) -> Vec<(u64, u64)> { let k = wmask(w); vec![(k, 1), (k >> 1, 1), ((k >> 1) + 1, (k >> 1) + 1), (val1(w), val2(w)), (0, 0)] }
+
+fn grp_mem(g: &mut G) {
+    let m = g.m;
+    let aws: &[u8] = if m == M::X86 { &[32, 16] } else { &[64, 32] };
+    let mut counter = 0usize;
+    for &aw in aws {
+        for f in forms(m, aw, true) {
+            counter += 1;
+            let mut segs = vec![Seg::None, Seg::Fs, Seg::Gs];
+            if g.thorough || counter % 5 == 0 { segs.extend([Seg::Cs, Seg::Ds, Seg::Es, Seg::Ss]); }
+            for seg in segs {
+                let mr = MemRef { seg, ..f.mr };
+                let t = (f.t + seg.base()) & m.mask();
+                let plans = &f.plans;
+                for &w in widths(m) {
+                    let o8 = w == 8;
+                    let mo = Op::M(mr, w);
+                    let ms = mem_str(&mr, w);
+                    let mut ds = vec![r(2, w)];
+                    if o8 && (g.thorough || counter % 3 == 0) { ds.push(rh(2)); }
+                    for d in ds {
+                        let dn = d.name();
+                        let dop = Op::R(d);
+                        g.add("mov.mem", REL_MEM, format!("mov {}, {}", dn, ms), enc(m, w, &[if o8 { 0x8A } else { 0x8B }], RF::R(d), &mo, &[], X::default()), I::Mov(dop, mo), B3, cross(plans, &[pmem(t, w, val1(w)), pmem(t, w, val2(w))]));
+                        g.add("mov.mem", REL_MEM, format!("mov {}, {}", ms, dn), enc(m, w, &[if o8 { 0x88 } else { 0x89 }], RF::R(d), &mo, &[], X::default()), I::Mov(mo, dop), B3, cross(plans, &[preg(d, val1(w)), preg(d, val2(w))]));
+                        for (op, base) in [(Alu::Add, 0x00u8), (Alu::Sub, 0x28), (Alu::Cmp, 0x38)] {
+                            let name = format!("{}.mem", alu_name(op));
+                            let to_mem: Vec<Patch> = alu_pairs(w).into_iter().map(|(a, b)| pmem(t, w, a).merge(&preg(d, b))).collect();
+                            let to_reg: Vec<Patch> = alu_pairs(w).into_iter().map(|(a, b)| preg(d, a).merge(&pmem(t, w, b))).collect();
+                            g.add(&name, REL_MEM, format!("{} {}, {}", alu_name(op), ms, dn), enc(m, w, &[base + if o8 { 0 } else { 1 }], RF::R(d), &mo, &[], X::default()), I::Alu(op, mo, dop), B3, cross(plans, &to_mem));
+                            g.add(&name, REL_MEM, format!("{} {}, {}", alu_name(op), dn, ms), enc(m, w, &[base + if o8 { 2 } else { 3 }], RF::R(d), &mo, &[], X::default()), I::Alu(op, dop, mo), B3, cross(plans, &to_reg));
+                        }
+                        g.add("xchg.mem", REL_MEM, format!("xchg {}, {}", ms, dn), enc(m, w, &[if o8 { 0x86 } else { 0x87 }], RF::R(d), &mo, &[], X::default()), I::Xchg(mo, dop), B3, cross(plans, &[pmem(t, w, val1(w)).merge(&preg(d, val2(w)))]));
+                    }
+                    // immediates
+                    let iw = if w == 64 { 32 } else { w };
+                    let iv = 0x89AB_CDEFu64 & wmask(iw);
+                    g.add("mov.mem", REL_MEM, format!("mov {}, 0x{:x}", ms, sext(iv, iw, w)), enc(m, w, &[if o8 { 0xC6 } else { 0xC7 }], RF::D(0), &mo, &imm_bytes(iv, iw as usize / 8), X::default()), I::Mov(mo, Op::I(sext(iv, iw, w))), B3, plans.clone());
+                    let mem_vals: Vec<Patch> = [wmask(w), wmask(w) >> 1, 0, val1(w)].iter().map(|&a| pmem(t, w, a)).collect();
+                    for (op, dg) in [(Alu::Add, 0u8), (Alu::Sub, 5), (Alu::Cmp, 7)] {
+                        g.add(&format!("{}.mem", alu_name(op)), REL_MEM, format!("{} {}, -1 (imm8)", alu_name(op), ms), enc(m, w, &[if o8 { 0x80 } else { 0x83 }], RF::D(dg), &mo, &[0xff], X::default()), I::Alu(op, mo, Op::I(wmask(w))), B3, cross(plans, &mem_vals));
+                    }
+                    let un_vals: Vec<Patch> = cross(&mem_vals, &[pfl(0), pfl(1 | 2 | 4 | 8)]);
+                    g.add("inc.mem", REL_MEM, format!("inc {}", ms), enc(m, w, &[if o8 { 0xFE } else { 0xFF }], RF::D(0), &mo, &[], X::default()), I::Un(Un::Inc, mo), B3, cross(plans, &un_vals));
+                    g.add("dec.mem", REL_MEM, format!("dec {}", ms), enc(m, w, &[if o8 { 0xFE } else { 0xFF }], RF::D(1), &mo, &[], X::default()), I::Un(Un::Dec, mo), B3, cross(plans, &un_vals));
+                    g.add("neg.mem", REL_MEM, format!("neg {}", ms), enc(m, w, &[if o8 { 0xF6 } else { 0xF7 }], RF::D(3), &mo, &[], X::default()), I::Un(Un::Neg, mo), B3, cross(plans, &un_vals));
+                    if !o8 {
+                        let d = r(2, w);
+                        g.add("lea", REL_MEM, format!("lea {}, {}", d.name(), ms), enc(m, w, &[0x8D], RF::R(d), &mo, &[], X::default()), I::Lea(d, mr), B3, plans.clone());
+                        for sw in [8u8, 16] {
+                            if sw >= w { continue; }
+                            let so = Op::M(mr, sw);
+                            let sv: Vec<Patch> = [val1(sw), val2(sw)].iter().map(|&a| pmem(t, sw, a)).collect();
+                            g.add("movzx.mem", REL_MEM, format!("movzx {}, {}", d.name(), mem_str(&mr, sw)), enc(m, w, &[0x0F, if sw == 8 { 0xB6 } else { 0xB7 }], RF::R(d), &so, &[], X::default()), I::Movzx(Op::R(d), so), B3, cross(plans, &sv));
+                            g.add("movsx.mem", REL_MEM, format!("movsx {}, {}", d.name(), mem_str(&mr, sw)), enc(m, w, &[0x0F, if sw == 8 { 0xBE } else { 0xBF }], RF::R(d), &so, &[], X::default()), I::Movsx(Op::R(d), so), B3, cross(plans, &sv));
+                        }
+                        if w == 64 {
+                            let so = Op::M(mr, 32);
+                            let sv: Vec<Patch> = [val1(32), val2(32)].iter().map(|&a| pmem(t, 32, a)).collect();
+                            g.add("movsx.mem", REL_MEM, format!("movsxd {}, {}", d.name(), mem_str(&mr, 32)), enc(m, 64, &[0x63], RF::R(d), &so, &[], X::default()), I::Movsx(Op::R(d), so), B3, cross(plans, &sv));
+                        }
+                        // push / pop of a memory operand (operand size 16, or the stack width of the mode)
+                        if w == 16 || w == m.bits() {
+                            let x = X { rep: None, d64: true };
+                            g.add("push.mem", REL_STACK, format!("push {}", ms), enc(m, w, &[0xFF], RF::D(6), &mo, &[], x), I::Push(mo, w), B3, cross(plans, &[pmem(t, w, val1(w))]));
+                            g.add("pop.mem", REL_STACK, format!("pop {}", ms), enc(m, w, &[0x8F], RF::D(0), &mo, &[], x), I::Pop(mo), B3, plans.iter().map(|p| { let mut q = p.clone(); q.mem.push((STACK, 8, 0x0123_4567_89AB_CDEF)); q }).collect());
+                        }
+                    }
+                }
+            }
+        }
+        // moffs forms (A0 - A3): absolute address of the address width
+        for seg in [Seg::None, Seg::Fs, Seg::Gs, Seg::Es] {
+            for &w in widths(m) {
+                let tt = if aw == 16 { T16 } else { T32 };
+                let mr = MemRef { seg, aw, base: None, index: None, disp: tt as i64, dsz: aw / 8, rip: false, sib: false };
+                let t = (tt + seg.base()) & m.mask();
+                let acc = r(0, w);
+                let mo = Op::M(mr, w);
+                let mut pre: Vec<u8> = Vec::new();
+                if let Some(p) = seg.prefix() { pre.push(p); }
+                if aw != m.bits() { pre.push(0x67); }
+                if w == 16 { pre.push(0x66); }
+                if w == 64 { pre.push(0x48); }
+                let ld = with(with(pre.clone(), &[if w == 8 { 0xA0 } else { 0xA1 }]), &le(tt, aw as usize / 8));
+                let st = with(with(pre.clone(), &[if w == 8 { 0xA2 } else { 0xA3 }]), &le(tt, aw as usize / 8));
+                g.add("mov.moffs", REL_MEM, format!("mov {}, {} (moffs{})", acc.name(), mem_str(&mr, w), aw), Some(ld), I::Mov(Op::R(acc), mo), B3, vec![pmem(t, w, val1(w)), pmem(t, w, val2(w))]);
+                g.add("mov.moffs", REL_MEM, format!("mov {}, {} (moffs{})", mem_str(&mr, w), acc.name(), aw), Some(st), I::Mov(mo, Op::R(acc)), B3, vec![preg(acc, val1(w)), preg(acc, val2(w))]);
+            }
+        }
+    }
+    // aliasing: the destination register is also an address register / the stack pointer is an operand
+    let w = m.bits();
+    let aw = w;
+    let base3 = MemRef { seg: Seg::None, aw, base: Some(3), index: None, disp: 4, dsz: 1, rip: false, sib: false };
+    let p3 = pfull(&[(3, T32 - 4)]);
+    let b = r(3, w);
+    let mo = Op::M(base3, w);
+    let ms = mem_str(&base3, w);
+    g.add("mov.alias", REL_MEM, format!("mov {}, {}", b.name(), ms), enc(m, w, &[0x8B], RF::R(b), &mo, &[], X::default()), I::Mov(Op::R(b), mo), B3, vec![p3.merge(&pmem(T32, w, val1(w)))]);
+    g.add("add.alias", REL_MEM, format!("add {}, {}", b.name(), ms), enc(m, w, &[0x03], RF::R(b), &mo, &[], X::default()), I::Alu(Alu::Add, Op::R(b), mo), B3, vec![p3.merge(&pmem(T32, w, val1(w)))]);
+    g.add("xchg.alias", REL_MEM, format!("xchg {}, {}", ms, b.name()), enc(m, w, &[0x87], RF::R(b), &mo, &[], X::default()), I::Xchg(mo, Op::R(b)), B3, vec![p3.merge(&pmem(T32, w, val1(w)))]);
+    g.add("xadd.alias", REL_MEM, format!("xadd {}, {}", ms, b.name()), enc(m, w, &[0x0F, 0xC1], RF::R(b), &mo, &[], X::default()), I::Xadd(mo, b), B3, vec![p3.merge(&pmem(T32, w, val1(w)))]);
+    let lea3 = MemRef { seg: Seg::None, aw, base: Some(3), index: Some((3, 2)), disp: 0, dsz: 0, rip: false, sib: false };
+    g.add("lea", REL_MEM, format!("lea {}, {}", b.name(), mem_str(&lea3, w)), enc(m, w, &[0x8D], RF::R(b), &Op::M(lea3, w), &[], X::default()), I::Lea(b, lea3), B3, vec![pfull(&[(3, 0x1234_5678)]), pfull(&[(3, 0xFFFF_FFFF_FFFF_FFF0)])]);
+    // stack pointer as operand
+    let sp = r(4, w);
+    let x64 = X { rep: None, d64: true };
+    let stk = pmem(STACK, 64, 0x0000_0000_0001_0900).merge(&pmem(STACK - 8, 64, 0x1111_2222_3333_4444));
+    g.add("push", REL_STACK, format!("push {}", sp.name()), plus_r64(m, w, 0x50, sp), I::Push(Op::R(sp), w), B3, vec![stk.clone()]);
+    g.add("pop", REL_STACK, format!("pop {}", sp.name()), plus_r64(m, w, 0x58, sp), I::Pop(Op::R(sp)), B3, vec![stk.clone()]);
+    for (d, dsz) in [(0i64, 0u8), (8, 1), (-8, 1)] {
+        let msp = MemRef { seg: Seg::None, aw, base: Some(4), index: None, disp: d, dsz, rip: false, sib: false };
+        let mo = Op::M(msp, w);
+        g.add("pop.mem", REL_STACK, format!("pop {}", mem_str(&msp, w)), enc(m, w, &[0x8F], RF::D(0), &mo, &[], x64), I::Pop(mo), B3, vec![stk.clone()]);
+        g.add("push.mem", REL_STACK, format!("push {}", mem_str(&msp, w)), enc(m, w, &[0xFF], RF::D(6), &mo, &[], x64), I::Push(mo, w), B3, vec![stk.clone()]);
+    }
+}
+
+// ------------------------------------------------------------------ group "cc": condition codes, jcxz, loop
+fn mini_forms(m: M) -> Vec<Form> {
+    let aw = m.bits();
+    let mk = |base: Option<u8>, index: Option<(u8, u8)>, disp: i64, dsz: u8, seg: Seg| MemRef { seg, aw, base, index, disp, dsz, rip: false, sib: false };
+    let mut v = vec![
+        Form { mr: mk(Some(3), None, 0, 0, Seg::None), plans: vec![pfull(&[(3, T32)])], t: T32 },
+        Form { mr: mk(Some(6), Some((5, 4)), 0x10, 1, Seg::None), plans: vec![pfull(&[(5, 0x20), (6, T32 - 0x90)])], t: T32 },
+        Form { mr: mk(None, None, T32 as i64, 4, Seg::Fs), plans: vec![Patch::default()], t: T32 + FS_BASE },
+    ];
+    if m == M::Amd64 { v.push(Form { mr: MemRef { seg: Seg::None, aw, base: None, index: None, disp: T32 as i64, dsz: 4, rip: true, sib: false }, plans: vec![Patch::default()], t: T32 }); }
+    v
+}
+
+fn grp_cc(g: &mut G) {
+    let m = g.m;
+    let flags32: Vec<Patch> = (0..32u8).map(pfl).collect();
+    for cc in 0..16u8 {
+        let n = CC_NAMES[cc as usize];
+        for rel in [0x30i64, -0x40] {
+            let t = (CODE as i64 + 2 + rel) as u64;
+            g.add("jcc", REL_CC, format!("j{} short 0x{:x}", n, t), Some(vec![0x70 + cc, rel as u8]), I::Jcc(cc, t), B3, flags32.clone());
+        }
+        for rel in [0x200i64, -0x300] {
+            let t = (CODE as i64 + 6 + rel) as u64;
+            g.add("jcc", REL_CC, format!("j{} near 0x{:x}", n, t), Some(with(vec![0x0F, 0x80 + cc], &le(rel as u64, 4))), I::Jcc(cc, t), B3, flags32.clone());
+        }
+        let mut dsts: Vec<Op> = vec![Op::R(r(2, 8)), Op::R(rh(2)), Op::R(r(0, 8))];
+        if m == M::Amd64 { dsts.push(Op::R(r(6, 8))); dsts.push(Op::R(r(9, 8))); }
+        for d in dsts { g.add("setcc", REL_CC, format!("set{} {}", n, op_str(&d)), enc(m, 8, &[0x0F, 0x90 + cc], RF::D(0), &d, &[], X::default()), I::Setcc(cc, d), B3, flags32.clone()); }
+        for f in mini_forms(m) {
+            let d = Op::M(f.mr, 8);
+            g.add("setcc", REL_CC, format!("set{} {}", n, op_str(&d)), enc(m, 8, &[0x0F, 0x90 + cc], RF::D(0), &d, &[], X::default()), I::Setcc(cc, d), B3, cross(&f.plans, &flags32));
+        }
+        for &w in &widths(m)[1..] {
+            let (d, s) = (r(2, w), r(7, w));
+            g.add("cmovcc", REL_CC, format!("cmov{} {}, {}", n, d.name(), s.name()), enc(m, w, &[0x0F, 0x40 + cc], RF::R(d), &Op::R(s), &[], X::default()), I::Cmov(cc, d, Op::R(s)), B3, flags32.clone());
+            for f in mini_forms(m) {
+                let so = Op::M(f.mr, w);
+                g.add("cmovcc", REL_CC, format!("cmov{} {}, {}", n, d.name(), op_str(&so)), enc(m, w, &[0x0F, 0x40 + cc], RF::R(d), &so, &[], X::default()), I::Cmov(cc, d, so), B3, cross(&f.plans, &flags32));
+            }
+        }
+    }
+    // jcxz / jecxz / jrcxz (E3) and loop / loope / loopne (E2 / E1 / E0): the count register follows the ADDRESS size
+    let counts: Vec<u64> = if m == M::X86 { vec![0, 1, 2, 0xFFFF, 0x10000, 0x10001, 0xFFFF_0000, 0xFFFF_FFFF] }
+                           else { vec![0, 1, 2, 0xFFFF, 0x10000, 0x10001, 0xFFFF_0000, 0xFFFF_FFFF, 0x1_0000_0000, 0x1_0000_0001, 0x1_0000_0002, 0xFFFF_FFFF_0000_0000, u64::MAX] };
+    for a67 in [false, true] {
+        let cw = match (m, a67) { (M::X86, false) => 32, (M::X86, true) => 16, (M::Amd64, false) => 64, (M::Amd64, true) => 32 };
+        let pre: Vec<u8> = if a67 { vec![0x67] } else { vec![] };
+        for rel in [0x20i64, -0x30] {
+            let len = pre.len() as i64 + 2;
+            let t = (CODE as i64 + len + rel) as u64;
+            let cnt_states: Vec<Patch> = counts.iter().map(|&c| pfull(&[(1, c)])).collect();
+            g.add("jcxz", REL_CC, format!("j{}cxz 0x{:x}{}", match cw { 16 => "", 32 => "e", _ => "r" }, t, if a67 { " (67)" } else { "" }), Some(with(pre.clone(), &[0xE3, rel as u8])), I::Jcxz(cw, t), B3, cnt_states.clone());
+            for (kind, opc, name) in [(0u8, 0xE0u8, "loopne"), (1, 0xE1, "loope"), (2, 0xE2, "loop")] {
+                let st = cross(&cnt_states, &[pfl(0), pfl(2), pfl(31)]);
+                g.add(name, REL_LOOP, format!("{} 0x{:x} (count width {}){}", name, t, cw, if a67 { " (67)" } else { "" }), Some(with(pre.clone(), &[opc, rel as u8])), I::Loop(kind, cw, t), B3, st);
+            }
+        }
+    }
+}
+
+// ------------------------------------------------------------------ group "str": string instructions and rep prefixes
+fn grp_str(g: &mut G) {
+    let m = g.m;
+    for a67 in [false, true] {
+        let aw = match (m, a67) { (M::X86, false) => 32, (M::X86, true) => 16, (M::Amd64, false) => 64, (M::Amd64, true) => 32 };
+        let (src0, dst0) = if aw == 16 { (0x4400u64, 0x4C00u64) } else { (0x10400u64, 0x10C00u64) };
+        let hi: u64 = if aw == 16 { 0xBEEF_0000 } else { 0 };
+        for (k, kn, opc) in [(Str::Movs, "movs", 0xA4u8), (Str::Cmps, "cmps", 0xA6), (Str::Stos, "stos", 0xAA), (Str::Lods, "lods", 0xAC), (Str::Scas, "scas", 0xAE)] {
+            for &w in widths(m) {
+                let n = w as u64 / 8;
+                for rep in [Rep::None, Rep::Rep, Rep::Repne] {
+                    if rep == Rep::Repne && k != Str::Scas && k != Str::Cmps { continue; } // reserved (SDM: REPNE only with CMPS / SCAS)
+                    let mut segs = vec![Seg::None];
+                    if (k == Str::Movs || k == Str::Lods || k == Str::Cmps) && (w == 8 || w == 32) && rep != Rep::Repne { segs.push(Seg::Fs); }
+                    for seg in segs {
+                        let mut bytes: Vec<u8> = Vec::new();
+                        match rep { Rep::Rep => bytes.push(0xF3), Rep::Repne => bytes.push(0xF2), Rep::None => {} }
+                        if let Some(p) = seg.prefix() { bytes.push(p); }
+                        if a67 { bytes.push(0x67); }
+                        if w == 16 { bytes.push(0x66); }
+                        if w == 64 { bytes.push(0x48); }
+                        bytes.push(if w == 8 { opc } else { opc + 1 });
+                        let cmp = k == Str::Scas || k == Str::Cmps;
+                        let repn = match rep { Rep::None => "", Rep::Rep => if cmp { "repe " } else { "rep " }, Rep::Repne => "repne " };
+                        let asm = format!("{}{}{} {}{}", repn, kn, match w { 8 => "b", 16 => "w", 32 => "d", _ => "q" }, seg.name(), if a67 { format!(" (67: a{})", aw) } else { String::new() });
+                        let mut states: Vec<Patch> = Vec::new();
+                        let acc_v = val1(w);
+                        let other = val2(w);
+                        for df in [false, true] {
+                            let dir = |j: u64| -> u64 { if df { j.wrapping_mul(n).wrapping_neg() } else { j * n } };
+                            let (si, di) = (src0 + 0x80, dst0 + 0x80);
+                            let srcl = |j: u64| -> u64 { (si.wrapping_add(dir(j)) & wmask(aw)).wrapping_add(seg.base()) };
+                            let dstl = |j: u64| -> u64 { di.wrapping_add(dir(j)) & wmask(aw) };
+                            let mut cnts: Vec<(u64, Vec<i64>)> = Vec::new(); // (count, exit positions; -1 = no early exit)
+                            if rep == Rep::None { cnts.push((7, if cmp { vec![-1, 0] } else { vec![-1] })); }
+                            else if cmp { cnts.extend([(0, vec![-1]), (1, vec![-1, 0]), (2, vec![-1, 0, 1]), (5, vec![-1, 0, 2, 4])]); if g.thorough { cnts.extend([(3, vec![-1, 0, 1, 2]), (9, vec![-1, 0, 1, 4, 7, 8])]); } }
+                            else { cnts.extend([(0, vec![-1]), (1, vec![-1]), (2, vec![-1]), (5, vec![-1])]); if g.thorough { cnts.extend([(3, vec![-1]), (9, vec![-1]), (17, vec![-1])]); } }
+                            for (cnt, exits) in cnts {
+                                for ex in exits {
+                                    let mut p = Patch { df: Some(df), ..Default::default() };
+                                    p.full.push((6, si | hi)); p.full.push((7, di | hi)); p.full.push((1, cnt | hi));
+                                    p.regs.push((r(0, w), acc_v));
+                                    if cmp {
+                                        // the "continue" relation holds for every element before position `ex` and fails at `ex`
+                                        let elems = if rep == Rep::None { 1 } else { cnt };
+                                        for j in 0..elems {
+                                            let goes_on = ex < 0 || (j as i64) < ex;
+                                            let equal = match rep { Rep::Repne => !goes_on, _ => goes_on };
+                                            let sv = if k == Str::Cmps { acc_v.wrapping_add(j.wrapping_mul(0x0101_0101_0101_0101)) & wmask(w) } else { acc_v };
+                                            let dv = if equal { sv } else if j % 2 == 0 { (sv ^ other) & wmask(w) } else { sv.wrapping_add(1) & wmask(w) };
+                                            if k == Str::Cmps { p.mem.push((srcl(j), w / 8, sv)); }
+                                            p.mem.push((dstl(j), w / 8, dv));
+                                        }
+                                    }
+                                    states.push(p);
+                                }
+                            }
+                        }
+                        // a count register whose upper part differs between the address-size views
+                        if rep != Rep::None && aw == 32 && m == M::Amd64 {
+                            states.push(Patch { full: vec![(6, src0 + 0x80), (7, dst0 + 0x80), (1, 0x1_0000_0002)], regs: vec![(r(0, w), acc_v)], df: Some(false), ..Default::default() });
+                            states.push(Patch { full: vec![(6, (src0 + 0x80) | 0xDEAD_BEEF_0000_0000), (7, (dst0 + 0x80) | 0xDEAD_BEEF_0000_0000), (1, 2)], regs: vec![(r(0, w), acc_v)], df: Some(false), ..Default::default() });
+                        }
+                        let op = if rep == Rep::None { kn.to_string() } else { format!("rep.{}", kn) };
+                        g.add(&op, REL_STR, asm, Some(bytes), I::Str(k, w, rep, aw, seg), B3, states);
+                    }
+                }
+            }
+        }
+    }
+}
+
+// ------------------------------------------------------------------ group "int": the remaining integer builders
+fn top(w: u8) -> u64 { 1u64 << (w - 1) }
+fn counts_list(thorough: bool) -> Vec<u8> { if thorough { (0..=255u8).collect() } else { vec![0, 1, 2, 7, 8, 9, 15, 16, 17, 31, 32, 33, 63, 64, 65, 0x81, 0xff] } }
+
+fn grp_int(g: &mut G) {
+    let m = g.m;
+    let x0 = X::default();
+    let minis = mini_forms(m);
+    let cf01 = [pfl(0), pfl(1 | 2 | 4 | 8)];
+    for &w in widths(m) {
+        let o8 = w == 8;
+        let (d, s) = (r(2, w), r(3, w));
+        let s7 = if o8 { r(1, 8) } else { r(7, w) }; // a source register that no mini form uses for addressing
+        let pair_states: Vec<Patch> = { let mut v = Vec::new(); for a in boundary(w) { for b in boundary(w) { for f in &cf01 { v.push(Patch { regs: vec![(s, b), (d, a)], ..Default::default() }.merge(f)); } } } v };
+        let one_states: Vec<Patch> = { let mut v = Vec::new(); for a in boundary(w).into_iter().chain([val1(w)]) { for f in &cf01 { v.push(preg(d, a).merge(f)); } } v };
+        // ---- adc sbb and or xor (+ test): r/m,r ; r,r/m ; immediates ; accumulator short forms ; memory forms
+        for (op, base) in [(Alu::Or, 0x08u8), (Alu::Adc, 0x10), (Alu::Sbb, 0x18), (Alu::And, 0x20), (Alu::Xor, 0x30)] {
+            let name = alu_name(op);
+            let dg = base >> 3;
+            g.add(name, REL_INT, format!("{} {}, {}", name, d.name(), s.name()), rr(m, w, &[base + if o8 { 0 } else { 1 }], s, d), I::Alu(op, Op::R(d), Op::R(s)), B3, pair_states.clone());
+            g.add(name, REL_INT, format!("{} {}, {} (r, r/m form)", name, d.name(), s.name()), rr(m, w, &[base + if o8 { 2 } else { 3 }], d, s), I::Alu(op, Op::R(d), Op::R(s)), B3, pair_states.clone());
+            g.add(name, REL_INT, format!("{} {}, {}", name, d.name(), d.name()), rr(m, w, &[base + if o8 { 0 } else { 1 }], d, d), I::Alu(op, Op::R(d), Op::R(d)), B3, one_states.clone());
+            for v in boundary(8) {
+                let val = sext(v, 8, w);
+                g.add(name, REL_INT, format!("{} {}, 0x{:x} (imm8)", name, d.name(), val), digit(m, w, &[if o8 { 0x80 } else { 0x83 }], dg, d).map(|b| with(b, &[v as u8])), I::Alu(op, Op::R(d), Op::I(val)), B3, one_states.clone());
+            }
+            if !o8 {
+                let iw = if w == 64 { 32 } else { w };
+                for v in boundary(iw) {
+                    let val = sext(v, iw, w);
+                    g.add(name, REL_INT, format!("{} {}, 0x{:x} (81)", name, d.name(), val), digit(m, w, &[0x81], dg, d).map(|b| with(b, &imm_bytes(v, iw as usize / 8))), I::Alu(op, Op::R(d), Op::I(val)), B3, one_states.clone());
+                    let acc = r(0, w);
+                    let st: Vec<Patch> = one_states.iter().map(|p| Patch { regs: vec![(acc, p.regs[0].1)], ..p.clone() }).collect();
+                    g.add(name, REL_INT, format!("{} {}, 0x{:x} (short form)", name, acc.name(), val), prefixes(m, w, Some(acc), false).map(|b| with(with(b, &[base + 5]), &imm_bytes(v, iw as usize / 8))), I::Alu(op, Op::R(acc), Op::I(val)), B3, st);
+                }
+            } else {
+                let acc = r(0, 8);
+                let st: Vec<Patch> = one_states.iter().map(|p| Patch { regs: vec![(acc, p.regs[0].1)], ..p.clone() }).collect();
+                g.add(name, REL_INT, format!("{} al, 0x80 (short form)", name), Some(vec![base + 4, 0x80]), I::Alu(op, Op::R(acc), Op::I(0x80)), B3, st);
+            }
+            for f in &minis {
+                let mo = Op::M(f.mr, w);
+                let ms = op_str(&mo);
+                let to_mem: Vec<Patch> = alu_pairs(w).into_iter().flat_map(|(a, b)| cf01.iter().map(move |fl| (a, b, fl.clone()))).map(|(a, b, fl)| pmem(f.t, w, a).merge(&preg(d, b)).merge(&fl)).collect();
+                let to_reg: Vec<Patch> = alu_pairs(w).into_iter().flat_map(|(a, b)| cf01.iter().map(move |fl| (a, b, fl.clone()))).map(|(a, b, fl)| preg(d, a).merge(&pmem(f.t, w, b)).merge(&fl)).collect();
+                g.add(&format!("{}.mem", name), REL_INT, format!("{} {}, {}", name, ms, d.name()), enc(m, w, &[base + if o8 { 0 } else { 1 }], RF::R(d), &mo, &[], x0), I::Alu(op, mo, Op::R(d)), B3, cross(&f.plans, &to_mem));
+                g.add(&format!("{}.mem", name), REL_INT, format!("{} {}, {}", name, d.name(), ms), enc(m, w, &[base + if o8 { 2 } else { 3 }], RF::R(d), &mo, &[], x0), I::Alu(op, Op::R(d), mo), B3, cross(&f.plans, &to_reg));
+                g.add(&format!("{}.mem", name), REL_INT, format!("{} {}, 0x7f (imm8)", name, ms), enc(m, w, &[if o8 { 0x80 } else { 0x83 }], RF::D(dg), &mo, &[0x7f], x0), I::Alu(op, mo, Op::I(0x7f)), B3, cross(&f.plans, &to_mem));
+            }
+        }
+        g.add("test", REL_INT, format!("test {}, {}", d.name(), s.name()), rr(m, w, &[if o8 { 0x84 } else { 0x85 }], s, d), I::Alu(Alu::Test, Op::R(d), Op::R(s)), B3, pair_states.clone());
+        {
+            let iw = if w == 64 { 32 } else { w };
+            for v in [top(iw), 1, wmask(iw)] {
+                let val = sext(v, iw, w);
+                g.add("test", REL_INT, format!("test {}, 0x{:x}", d.name(), val), digit(m, w, &[if o8 { 0xF6 } else { 0xF7 }], 0, d).map(|b| with(b, &imm_bytes(v, iw as usize / 8))), I::Alu(Alu::Test, Op::R(d), Op::I(val)), B3, one_states.clone());
+                let acc = r(0, w);
+                let st: Vec<Patch> = one_states.iter().map(|p| Patch { regs: vec![(acc, p.regs[0].1)], ..p.clone() }).collect();
+                g.add("test", REL_INT, format!("test {}, 0x{:x} (short form)", acc.name(), val), prefixes(m, w, Some(acc), false).map(|b| with(with(b, &[if o8 { 0xA8 } else { 0xA9 }]), &imm_bytes(v, iw as usize / 8))), I::Alu(Alu::Test, Op::R(acc), Op::I(val)), B3, st);
+            }
+            for f in &minis {
+                let mo = Op::M(f.mr, w);
+                let st: Vec<Patch> = alu_pairs(w).into_iter().map(|(a, b)| pmem(f.t, w, a).merge(&preg(d, b))).collect();
+                g.add("test.mem", REL_INT, format!("test {}, {}", op_str(&mo), d.name()), enc(m, w, &[if o8 { 0x84 } else { 0x85 }], RF::R(d), &mo, &[], x0), I::Alu(Alu::Test, mo, Op::R(d)), B3, cross(&f.plans, &st));
+                g.add("not.mem", REL_INT, format!("not {}", op_str(&mo)), enc(m, w, &[if o8 { 0xF6 } else { 0xF7 }], RF::D(2), &mo, &[], x0), I::Un(Un::Not, mo), B3, cross(&f.plans, &[pmem(f.t, w, val1(w)), pmem(f.t, w, 0)]));
+            }
+        }
+        g.add("not", REL_INT, format!("not {}", d.name()), digit(m, w, &[if o8 { 0xF6 } else { 0xF7 }], 2, d), I::Un(Un::Not, Op::R(d)), B3, one_states.clone());
+        // ---- shifts and rotates: by 1 (D0 / D1), by CL (D2 / D3), by imm8 (C0 / C1)
+        let sh_vals: Vec<u64> = vec![1, top(w), val1(w), wmask(w), top(w) >> 1, 0, val2(w)];
+        let counts = counts_list(g.thorough);
+        for (sh, dg, name) in [(Sh::Rol, 0u8, "rol"), (Sh::Ror, 1, "ror"), (Sh::Shl, 4, "shl"), (Sh::Shr, 5, "shr"), (Sh::Sar, 7, "sar")] {
+            let mut dsts: Vec<(Op, Vec<Patch>, u64)> = vec![(Op::R(d), vec![Patch::default()], 0)];
+            if o8 { dsts.push((Op::R(rh(2)), vec![Patch::default()], 0)); }
+            for f in [&minis[0], &minis[2]] { dsts.push((Op::M(f.mr, w), f.plans.clone(), f.t)); }
+            for (dst, plans, t) in dsts {
+                let is_mem = matches!(dst, Op::M(..));
+                let opn = if is_mem { format!("{}.mem", name) } else { name.to_string() };
+                let vals: Vec<Patch> = cross(&sh_vals.iter().map(|&v| pop_(&dst, t, v)).collect::<Vec<_>>(), &cf01);
+                let base_states = cross(&plans, &vals);
+                g.add(&opn, REL_INT, format!("{} {}, 1", name, op_str(&dst)), enc(m, w, &[if o8 { 0xD0 } else { 0xD1 }], RF::D(dg), &dst, &[], x0), I::Shift(sh, dst, Cnt::One), B3, base_states.clone());
+                let cl_counts: Vec<Patch> = counts.iter().filter(|&&c| !is_mem || [0u8, 1, 5, 33, 64].contains(&c) || c == 7).map(|&c| preg(r(1, 8), c as u64)).collect();
+                g.add(&opn, REL_INT, format!("{} {}, cl", name, op_str(&dst)), enc(m, w, &[if o8 { 0xD2 } else { 0xD3 }], RF::D(dg), &dst, &[], x0), I::Shift(sh, dst, Cnt::Cl), B3, cross(&base_states, &cl_counts));
+                for &c in &counts {
+                    if is_mem && ![0u8, 1, 5, 33].contains(&c) { continue; }
+                    g.add(&opn, REL_INT, format!("{} {}, {}", name, op_str(&dst), c), enc(m, w, &[if o8 { 0xC0 } else { 0xC1 }], RF::D(dg), &dst, &[c], x0), I::Shift(sh, dst, Cnt::Imm(c)), B3, base_states.clone());
+                }
+            }
+        }
+        if o8 { continue; }
+        // ---- shld / shrd
+        let sd_vals: Vec<Patch> = [(val1(w), val2(w)), (wmask(w), 0), (0, wmask(w)), (top(w), 1), (1, top(w))].iter().flat_map(|&(a, b)| cf01.iter().map(move |f| (a, b, f.clone()))).map(|(a, b, f)| Patch { regs: vec![(d, a), (s7, b)], ..Default::default() }.merge(&f)).collect();
+        for (left, oi, oc, name) in [(true, 0xA4u8, 0xA5u8, "shld"), (false, 0xAC, 0xAD, "shrd")] {
+            for &c in &counts {
+                g.add(name, REL_INT, format!("{} {}, {}, {}", name, d.name(), s7.name(), c), enc(m, w, &[0x0F, oi], RF::R(s7), &Op::R(d), &[c], x0), I::Shxd(left, Op::R(d), s7, Cnt::Imm(c)), B3, sd_vals.clone());
+            }
+            let cl_counts: Vec<Patch> = counts.iter().map(|&c| preg(r(1, 8), c as u64)).collect();
+            g.add(name, REL_INT, format!("{} {}, {}, cl", name, d.name(), s7.name()), enc(m, w, &[0x0F, oc], RF::R(s7), &Op::R(d), &[], x0), I::Shxd(left, Op::R(d), s7, Cnt::Cl), B3, cross(&sd_vals, &cl_counts));
+            let f = &minis[0];
+            let mo = Op::M(f.mr, w);
+            let mv: Vec<Patch> = [(val1(w), val2(w)), (top(w), 1)].iter().map(|&(a, b)| pmem(f.t, w, a).merge(&preg(s7, b))).collect();
+            for c in [0u8, 1, 4, 33] {
+                g.add(&format!("{}.mem", name), REL_INT, format!("{} {}, {}, {}", name, op_str(&mo), s7.name(), c), enc(m, w, &[0x0F, oi], RF::R(s7), &mo, &[c], x0), I::Shxd(left, mo, s7, Cnt::Imm(c)), B3, cross(&f.plans, &mv));
+            }
+        }
+        // ---- bt / bts / btr / btc
+        let wn = w as u64;
+        for (k, orr, dg, name) in [(Bt::Bt, 0xA3u8, 4u8, "bt"), (Bt::Bts, 0xAB, 5, "bts"), (Bt::Btr, 0xB3, 6, "btr"), (Bt::Btc, 0xBB, 7, "btc")] {
+            let offs: Vec<u64> = vec![0, 1, wn - 1, wn, wn + 1, 2 * wn + 3, wmask(w), top(w)];
+            let st: Vec<Patch> = offs.iter().flat_map(|&o| [val1(w), 0, wmask(w)].into_iter().map(move |v| (o, v))).map(|(o, v)| Patch { regs: vec![(d, v), (s7, o)], fl: Some(2 | 4), ..Default::default() }).collect();
+            g.add(name, REL_INT, format!("{} {}, {}", name, d.name(), s7.name()), enc(m, w, &[0x0F, orr], RF::R(s7), &Op::R(d), &[], x0), I::Bt(k, Op::R(d), Op::R(s7)), B3, st);
+            for ib in [0u8, 1, w - 1, w, w + 3, 0xff] {
+                let st: Vec<Patch> = [val1(w), 0, wmask(w)].iter().map(|&v| Patch { regs: vec![(d, v)], fl: Some(2 | 4), ..Default::default() }).collect();
+                g.add(name, REL_INT, format!("{} {}, {}", name, d.name(), ib), enc(m, w, &[0x0F, 0xBA], RF::D(dg), &Op::R(d), &[ib], x0), I::Bt(k, Op::R(d), Op::I(ib as u64)), B3, st);
+            }
+            for f in [&minis[0], &minis[2]] {
+                let mo = Op::M(f.mr, w);
+                let moffs: Vec<u64> = vec![0, 7, wn - 1, wn, wn + 5, 3 * wn + 1, wmask(w), (wn + 3).wrapping_neg() & wmask(w), (5 * wn).wrapping_neg() & wmask(w)];
+                let st: Vec<Patch> = moffs.iter().map(|&o| preg(s7, o)).collect();
+                g.add(&format!("{}.mem", name), REL_INT, format!("{} {}, {}", name, op_str(&mo), s7.name()), enc(m, w, &[0x0F, orr], RF::R(s7), &mo, &[], x0), I::Bt(k, mo, Op::R(s7)), B3, cross(&f.plans, &st));
+                for ib in [0u8, w - 1, w + 3, 0xff] {
+                    g.add(&format!("{}.mem", name), REL_INT, format!("{} {}, {}", name, op_str(&mo), ib), enc(m, w, &[0x0F, 0xBA], RF::D(dg), &mo, &[ib], x0), I::Bt(k, mo, Op::I(ib as u64)), B3, cross(&f.plans, &[pmem(f.t, w, val1(w)), pmem(f.t, w, val2(w))]));
+                }
+            }
+        }
+        // ---- bsf / bsr
+        for (rev, opc, name) in [(false, 0xBCu8, "bsf"), (true, 0xBD, "bsr")] {
+            let vals = [0u64, 1, top(w), 0x10, wmask(w), val1(w), 0x00f0_0000_0000_0f00 & wmask(w)];
+            let st: Vec<Patch> = vals.iter().map(|&v| preg(s7, v).merge(&preg(d, wmask(w)))).collect();
+            g.add(name, REL_INT, format!("{} {}, {}", name, d.name(), s7.name()), enc(m, w, &[0x0F, opc], RF::R(d), &Op::R(s7), &[], x0), I::Bsf(rev, d, Op::R(s7)), B3, st);
+            let f = &minis[1];
+            let mo = Op::M(f.mr, w);
+            let st: Vec<Patch> = vals.iter().map(|&v| pmem(f.t, w, v)).collect();
+            g.add(&format!("{}.mem", name), REL_INT, format!("{} {}, {}", name, d.name(), op_str(&mo)), enc(m, w, &[0x0F, opc], RF::R(d), &mo, &[], x0), I::Bsf(rev, d, mo), B3, cross(&f.plans, &st));
+        }
+        // ---- xadd / cmpxchg / imul
+        let small_pairs: Vec<Patch> = alu_pairs(w).into_iter().map(|(a, b)| Patch { regs: vec![(d, a), (s7, b)], ..Default::default() }).collect();
+        g.add("xadd", REL_INT, format!("xadd {}, {}", d.name(), s7.name()), enc(m, w, &[0x0F, 0xC1], RF::R(s7), &Op::R(d), &[], x0), I::Xadd(Op::R(d), s7), B3, small_pairs.clone());
+        g.add("xadd", REL_INT, format!("xadd {}, {}", d.name(), d.name()), enc(m, w, &[0x0F, 0xC1], RF::R(d), &Op::R(d), &[], x0), I::Xadd(Op::R(d), d), B3, one_states.clone());
+        let zx = |x: R, v: u64| -> Patch { if w == 32 && m == M::Amd64 { pfull(&[(x.idx, v)]) } else { preg(x, v) } };
+        let cx_states: Vec<Patch> = [(val1(w), val1(w)), (val1(w), val2(w)), (0, wmask(w)), (top(w), top(w) - 1), (1, 1)].iter().map(|&(a, dv)| zx(r(0, w), a).merge(&zx(d, dv)).merge(&zx(s7, 0x5A5A_5A5A_5A5A_5A5A & wmask(w)))).collect();
+        g.add("cmpxchg", REL_INT, format!("cmpxchg {}, {}", d.name(), s7.name()), enc(m, w, &[0x0F, 0xB1], RF::R(s7), &Op::R(d), &[], x0), I::Cmpxchg(Op::R(d), s7), B3, cx_states);
+        for f in &minis {
+            let mo = Op::M(f.mr, w);
+            let st: Vec<Patch> = alu_pairs(w).into_iter().map(|(a, b)| pmem(f.t, w, a).merge(&preg(s7, b))).collect();
+            g.add("xadd.mem", REL_INT, format!("xadd {}, {}", op_str(&mo), s7.name()), enc(m, w, &[0x0F, 0xC1], RF::R(s7), &mo, &[], x0), I::Xadd(mo, s7), B3, cross(&f.plans, &st));
+            let st: Vec<Patch> = [(val1(w), val1(w)), (val1(w), val2(w)), (0, wmask(w))].iter().map(|&(a, dv)| zx(r(0, w), a).merge(&pmem(f.t, w, dv)).merge(&zx(s7, 0x5A5A_5A5A_5A5A_5A5A & wmask(w)))).collect();
+            g.add("cmpxchg.mem", REL_INT, format!("cmpxchg {}, {}", op_str(&mo), s7.name()), enc(m, w, &[0x0F, 0xB1], RF::R(s7), &mo, &[], x0), I::Cmpxchg(mo, s7), B3, cross(&f.plans, &st));
+            let st: Vec<Patch> = alu_pairs(w).into_iter().map(|(a, b)| preg(d, a).merge(&pmem(f.t, w, b))).collect();
+            g.add("imul2.mem", REL_INT, format!("imul {}, {}", d.name(), op_str(&mo)), enc(m, w, &[0x0F, 0xAF], RF::R(d), &mo, &[], x0), I::Imul2(d, mo), B3, cross(&f.plans, &st));
+        }
+        let mul_states: Vec<Patch> = { let mut v = Vec::new(); for a in boundary(w).into_iter().chain([3, val1(w)]) { for b in boundary(w).into_iter().chain([7]) { v.push(Patch { regs: vec![(d, a), (s7, b)], ..Default::default() }); } } v };
+        g.add("imul2", REL_INT, format!("imul {}, {}", d.name(), s7.name()), enc(m, w, &[0x0F, 0xAF], RF::R(d), &Op::R(s7), &[], x0), I::Imul2(d, Op::R(s7)), B3, mul_states.clone());
+        for v in boundary(8) {
+            let val = sext(v, 8, w);
+            g.add("imul3", REL_INT, format!("imul {}, {}, 0x{:x} (imm8)", d.name(), s7.name(), val), enc(m, w, &[0x6B], RF::R(d), &Op::R(s7), &[v as u8], x0), I::Imul3(d, Op::R(s7), val), B3, mul_states.clone());
+        }
+        let iw = if w == 64 { 32 } else { w };
+        for v in boundary(iw) {
+            let val = sext(v, iw, w);
+            g.add("imul3", REL_INT, format!("imul {}, {}, 0x{:x}", d.name(), s7.name(), val), enc(m, w, &[0x69], RF::R(d), &Op::R(s7), &imm_bytes(v, iw as usize / 8), x0), I::Imul3(d, Op::R(s7), val), B3, mul_states.clone());
+        }
+        // one-operand mul / imul / div / idiv on a memory operand
+        for (op, name, dg) in [(Md::Mul, "mul", 4u8), (Md::Imul, "imul", 5), (Md::Div, "div", 6), (Md::Idiv, "idiv", 7)] {
+            let f = &minis[0];
+            let mo = Op::M(f.mr, w);
+            let st: Vec<Patch> = [(3u64, 0x64u64, 0u64), (wmask(w), wmask(w), 0), (7, val1(w), 1), (top(w), 5, 0)].iter().map(|&(b, a, h)| pmem(f.t, w, b).merge(&Patch { regs: vec![(r(0, w), a), (r(2, w), h)], ..Default::default() })).collect();
+            g.add(&format!("{}.mem", name), REL_INT, format!("{} {}", name, op_str(&mo)), enc(m, w, &[0xF7], RF::D(dg), &mo, &[], x0), I::MulDiv(op, mo), B3, cross(&f.plans, &st));
+        }
+    }
+    // ---- bswap (every register), cbw family
+    for w in [32u8, 64] {
+        for d in regs(m, w) {
+            g.add("bswap", REL_INT, format!("bswap {}", d.name()), prefixes(m, w, Some(d), false).map(|b| with(b, &[0x0F, 0xC8 + d.enc()])), I::Bswap(d), B3, vec![pfull(&[(d.idx, 0x1122_3344_5566_7788)]), pfull(&[(d.idx, 0xF1E2_D3C4_B5A6_9788)])]);
+        }
+    }
+    let acc_vals: Vec<Patch> = [0u64, 1, 0x7f, 0x80, 0xff, 0x7fff, 0x8000, 0xffff, 0x7fff_ffff, 0x8000_0000, 0xffff_ffff, 0x7fff_ffff_ffff_ffff, 0x8000_0000_0000_0000, 0x1234_5678_8000_8080].iter().map(|&v| pfull(&[(0, v)])).collect();
+    for (e, bytes, name) in [(Ext::Cbw, vec![0x66u8, 0x98], "cbw"), (Ext::Cwde, vec![0x98], "cwde"), (Ext::Cdqe, vec![0x48, 0x98], "cdqe"), (Ext::Cwd, vec![0x66, 0x99], "cwd"), (Ext::Cdq, vec![0x99], "cdq"), (Ext::Cqo, vec![0x48, 0x99], "cqo")] {
+        if m == M::X86 && (e == Ext::Cdqe || e == Ext::Cqo) { continue; }
+        g.add(name, REL_INT, name.to_string(), Some(bytes), I::Ext(e), B3, acc_vals.clone());
+    }
+    // ---- stack and control transfer
+    let w = m.bits();
+    let x64 = X { rep: None, d64: true };
+    let stk = pmem(STACK, 64, PAD_IND | 0x0101_0000_0000_0000).merge(&pmem(STACK - 8, 64, 0x1111_2222_3333_4444));
+    for ow in [w, 16] {
+        for d in regs(m, ow) {
+            g.add("push", REL_STACK, format!("push {}", d.name()), plus_r64(m, ow, 0x50, d), I::Push(Op::R(d), ow), B3, vec![stk.clone()]);
+            g.add("pop", REL_STACK, format!("pop {}", d.name()), plus_r64(m, ow, 0x58, d), I::Pop(Op::R(d)), B3, vec![stk.clone()]);
+        }
+        let d = r(2, ow);
+        g.add("push", REL_STACK, format!("push {} (FF /6)", d.name()), enc(m, ow, &[0xFF], RF::D(6), &Op::R(d), &[], x64), I::Push(Op::R(d), ow), B3, vec![stk.clone()]);
+        g.add("pop", REL_STACK, format!("pop {} (8F /0)", d.name()), enc(m, ow, &[0x8F], RF::D(0), &Op::R(d), &[], x64), I::Pop(Op::R(d)), B3, vec![stk.clone()]);
+        let pre: Vec<u8> = if ow == 16 { vec![0x66] } else { vec![] };
+        for v in [0x7fu64, 0x80, 0xff] { g.add("push", REL_STACK, format!("push 0x{:x} (imm8, o{})", sext(v, 8, ow), ow), Some(with(pre.clone(), &[0x6A, v as u8])), I::Push(Op::I(sext(v, 8, ow)), ow), B3, vec![stk.clone()]); }
+        let iw = if ow == 16 { 16 } else { 32 };
+        for v in [0x1234_5678u64 & wmask(iw), 0x8765_4321 & wmask(iw) | top(iw)] { g.add("push", REL_STACK, format!("push 0x{:x} (o{})", sext(v, iw, ow), ow), Some(with(with(pre.clone(), &[0x68]), &le(v, iw as usize / 8))), I::Push(Op::I(sext(v, iw, ow)), ow), B3, vec![stk.clone()]); }
+    }
+    for rel in [0x100i64, -0x200] {
+        let t = (CODE as i64 + 5 + rel) as u64;
+        g.add("call", REL_STACK, format!("call 0x{:x}", t), Some(with(vec![0xE8], &le(rel as u64, 4))), I::Call(Tgt::Rel(t)), B3, vec![stk.clone()]);
+        g.add("jmp", REL_CC, format!("jmp 0x{:x}", t), Some(with(vec![0xE9], &le(rel as u64, 4))), I::Jmp(Tgt::Rel(t)), B3, vec![stk.clone()]);
+    }
+    for rel in [0x40i64, -0x60] { let t = (CODE as i64 + 2 + rel) as u64; g.add("jmp", REL_CC, format!("jmp short 0x{:x}", t), Some(vec![0xEB, rel as u8]), I::Jmp(Tgt::Rel(t)), B3, vec![stk.clone()]); }
+    let d = r(2, w);
+    let ind = stk.merge(&pfull(&[(2, PAD_IND)]));
+    g.add("call", REL_STACK, format!("call {}", d.name()), enc(m, w, &[0xFF], RF::D(2), &Op::R(d), &[], x64), I::Call(Tgt::Ind(Op::R(d))), B3, vec![ind.clone()]);
+    g.add("jmp", REL_CC, format!("jmp {}", d.name()), enc(m, w, &[0xFF], RF::D(4), &Op::R(d), &[], x64), I::Jmp(Tgt::Ind(Op::R(d))), B3, vec![ind.clone()]);
+    for f in &minis {
+        let mo = Op::M(f.mr, w);
+        let st = cross(&f.plans, &[stk.merge(&pmem(f.t, 64, PAD_IND))]);
+        g.add("call.mem", REL_STACK, format!("call {}", op_str(&mo)), enc(m, w, &[0xFF], RF::D(2), &mo, &[], x64), I::Call(Tgt::Ind(mo)), B3, st.clone());
+        g.add("jmp.mem", REL_CC, format!("jmp {}", op_str(&mo)), enc(m, w, &[0xFF], RF::D(4), &mo, &[], x64), I::Jmp(Tgt::Ind(mo)), B3, st);
+    }
+    let ret_stk = pmem(STACK, 64, PAD_IND);
+    g.add("ret", REL_STACK, "ret".to_string(), Some(vec![0xC3]), I::Ret(0), B3, vec![ret_stk.clone()]);
+    for imm in [8u16, 0x10, 0x7ffc] { g.add("ret", REL_STACK, format!("ret 0x{:x}", imm), Some(with(vec![0xC2], &le(imm as u64, 2))), I::Ret(imm), B3, vec![ret_stk.clone()]); }
+    g.add("leave", REL_STACK, "leave".to_string(), Some(vec![0xC9]), I::Leave, B3, vec![pfull(&[(5, STACK - 0x40)]).merge(&pmem(STACK - 0x40, 64, 0x0102_0304_0506_0708)), pfull(&[(5, STACK + 0x80)])]);
+    // ---- flag instructions, sahf / lahf, nop
+    let fl_all: Vec<Patch> = cross(&(0..16u8).map(pfl).collect::<Vec<_>>(), &[Patch { df: Some(false), ..Default::default() }, Patch { df: Some(true), ..Default::default() }]);
+    for (f, b, name) in [(Fl::Clc, 0xF8u8, "clc"), (Fl::Stc, 0xF9, "stc"), (Fl::Cld, 0xFC, "cld"), (Fl::Std, 0xFD, "std"), (Fl::Cmc, 0xF5, "cmc")] {
+        g.add(name, REL_INT, name.to_string(), Some(vec![b]), I::Flag(f), B3, fl_all.clone());
+    }
+    let ah_vals: Vec<Patch> = cross(&[0x00u64, 0xff, 0xd5, 0x41, 0x80, 0x2a, 0x01, 0x40].iter().map(|&v| preg(rh(0), v)).collect::<Vec<_>>(), &[pfl(0), pfl(15)]);
+    g.add("sahf", REL_INT, "sahf".to_string(), Some(vec![0x9E]), I::Sahf, B3, ah_vals);
+    g.add("lahf", REL_INT, "lahf".to_string(), Some(vec![0x9F]), I::Lahf, B3, (0..32u8).map(pfl).collect());
+    g.add("nop", REL_INT, "nop".to_string(), Some(vec![0x90]), I::Nop, B3, fl_all.clone());
+    g.add("nop", REL_INT, "nop (66 90)".to_string(), Some(vec![0x66, 0x90]), I::Nop, B3, fl_all.clone());
+    g.add("nop", REL_INT, "nop dword [eax] (0F 1F 00)".to_string(), Some(vec![0x0F, 0x1F, 0x00]), I::Nop, B3, fl_all.clone());
+    g.add("nop", REL_INT, "pause (F3 90)".to_string(), Some(vec![0xF3, 0x90]), I::Nop, B3, fl_all);
+}
+
 // ------------------------------------------------------------------ running the lifted code
-fn lift(m: M, bytes: &[u8]) -> Result<RC<il::Program>, String> {
-    let mut code = bytes.to_vec();
-    code.push(0x90);
+fn targets_of(sem: &I) -> Vec<u64> {
+    match *sem {
+        I::Jcc(_, t) | I::Jcxz(_, t) | I::Loop(_, _, t) => vec![t],
+        I::Call(Tgt::Rel(t)) | I::Jmp(Tgt::Rel(t)) => vec![t],
+        _ => vec![],
+    }
+}
+
+fn data_image() -> (Vec<u8>, Vec<u8>) {
+    ((LOW_LO..LOW_HI).map(pat).collect(), (MAIN_LO..MAIN_HI).map(pat).collect())
+}
+
+fn build_backing(bytes: &[u8], sem: &I, img: &(Vec<u8>, Vec<u8>)) -> RC<memory::backing::Memory> {
+    let mut code = vec![0u8; (CODE_HI - CODE_LO) as usize];
+    let mut put = |a: u64, b: &[u8]| { for (i, x) in b.iter().enumerate() { let o = (a - CODE_LO) as usize + i; if o < code.len() { code[o] = *x; } } };
+    put(PAD_IND, &[0x90, 0xF4]);
+    for t in targets_of(sem) { if t >= CODE_LO && t + 2 <= CODE_HI { put(t, &[0x90, 0xF4]); } }
+    put(CODE + bytes.len() as u64, &[0x90, 0xF4]);
+    put(CODE, bytes);
     let mut backing = memory::backing::Memory::new(Endian::Little);
-    backing.set_memory(0, code, memory::MemoryPermissions::EXECUTE | memory::MemoryPermissions::READ);
+    backing.set_memory(CODE_LO, code, memory::MemoryPermissions::EXECUTE | memory::MemoryPermissions::READ);
+    backing.set_memory(LOW_LO, img.0.clone(), memory::MemoryPermissions::READ | memory::MemoryPermissions::WRITE);
+    backing.set_memory(MAIN_LO, img.1.clone(), memory::MemoryPermissions::READ | memory::MemoryPermissions::WRITE);
+    RC::new(backing)
+}
+
+fn lift(m: M, backing: &memory::backing::Memory) -> Result<RC<il::Program>, String> {
     let function = match m {
-        M::X86 => TX86::new().translate_function(&backing, 0),
-        M::Amd64 => TAmd64::new().translate_function(&backing, 0),
+        M::X86 => TX86::new().translate_function(backing, CODE),
+        M::Amd64 => TAmd64::new().translate_function(backing, CODE),
     }.map_err(|e| format!("{}", e))?;
     let mut program = il::Program::new();
     program.add_function(function);
     Ok(RC::new(program))
 }
 
-fn run(m: M, program: &RC<il::Program>, stop: u64, cpu: &Cpu) -> Result<Cpu, String> {
-    let function = program.function(0).ok_or("no function")?;
-    let location = if function.control_flow_graph().block(0).map_err(|e| format!("{}", e))?.instructions().is_empty() {
-        il::ProgramLocation::new(Some(0), il::FunctionLocation::EmptyBlock(0))
-    } else {
-        il::ProgramLocation::new(Some(0), il::FunctionLocation::Instruction(0, 0))
-    };
-    let mut state = State::new(Memory::new(Endian::Little));
-    let fb = if m == M::X86 { 32 } else { 64 };
+struct Got { cpu: Cpu, next: u64, written: Vec<(u64, u8)> }
+
+fn run(m: M, program: &RC<il::Program>, backing: &RC<memory::backing::Memory>, cpu: &Cpu) -> Result<Got, String> {
+    let function = program.functions().into_iter().next().ok_or("no function")?;
+    let location: il::ProgramLocation = il::RefProgramLocation::from_function(function).ok_or("function without entry")?.map_err(|e| format!("{}", e))?.into();
+    let mut state = State::new(Memory::new_with_backing(Endian::Little, backing.clone()));
+    let fb = m.bits() as usize;
     for i in 0..nregs(m) { state.set_scalar(full_name(m, i), il::const_(cpu.r[i], fb)); }
-    for (n, v) in [("CF", cpu.cf), ("ZF", cpu.zf), ("SF", cpu.sf), ("OF", cpu.of), ("DF", cpu.df), ("AF", false), ("PF", false), ("IF", false)] {
+    for (n, v) in [("CF", cpu.cf), ("ZF", cpu.zf), ("SF", cpu.sf), ("OF", cpu.of), ("DF", cpu.df), ("PF", cpu.pf), ("AF", false), ("IF", false)] {
         state.set_scalar(n, il::const_(v as u64, 1));
     }
+    for (n, v) in [("fs_base", cpu.fs), ("gs_base", cpu.gs), ("cs_base", 0), ("ds_base", 0), ("es_base", 0), ("ss_base", 0)] { state.set_scalar(n, il::const_(v, fb)); }
+    for (&a, &b) in &cpu.mem { state.memory_mut().store(a, il::const_(b as u64, 8)).map_err(|e| format!("{}", e))?; }
     let arch: RC<dyn architecture::Architecture> = match m {
         M::X86 => RC::new(architecture::X86::new()),
         M::Amd64 => RC::new(architecture::Amd64::new()),
     };
     let mut driver = Driver::new(program.clone(), location, state, arch);
     let mut steps = 0;
+    let next;
     loop {
         let at = driver.location().apply(driver.program()).map_err(|e| format!("{}", e))?.address();
-        if at == Some(stop) { break; }
+        if let Some(a) = at { if a != CODE { next = a; break; } }
         steps += 1;
-        if steps > 200 { return Err("did not reach the next instruction address within 200 IL steps".to_string()); }
+        if steps > 4000 { return Err("did not leave the instruction within 4000 IL steps".to_string()); }
         driver = driver.step().map_err(|e| format!("step: {}", e))?;
     }
     let mut out = cpu.clone();
@@ -426,140 +1525,151 @@ fn run(m: M, program: &RC<il::Program>, stop: u64, cpu: &Cpu) -> Result<Cpu, Str
         Ok(c.value_u64() == Some(1))
     };
     out.cf = flag("CF")?; out.zf = flag("ZF")?; out.sf = flag("SF")?; out.of = flag("OF")?; out.df = flag("DF")?;
-    Ok(out)
+    let seg = |n: &str| -> Result<u64, String> {
+        let c = driver.state().get_scalar(n).ok_or(format!("scalar {} vanished", n))?;
+        if c.bits() != fb { return Err(format!("scalar {} has width {}", n, c.bits())); }
+        c.value_u64().ok_or("value does not fit u64".to_string())
+    };
+    out.fs = seg("fs_base")?; out.gs = seg("gs_base")?;
+    // every byte the executor wrote
+    let mut written = Vec::new();
+    let mem = driver.state().memory();
+    for (&pa, page) in mem.pages() {
+        for (i, cell) in page.cells().iter().enumerate() {
+            if cell.is_some() {
+                let a = pa + i as u64;
+                let v = mem.load(a, 8).map_err(|e| format!("{}", e))?.and_then(|c| c.value_u64()).ok_or(format!("unreadable byte at 0x{:x}", a))?;
+                written.push((a, v as u8));
+            }
+        }
+    }
+    Ok(Got { cpu: out, next, written })
 }
 
-fn base_states(m: M) -> Vec<Cpu> {
-    let mut a = Cpu { r: [0; 16], cf: false, zf: true, sf: false, of: true, df: true };
-    for i in 0..16 { a.r[i] = 0x1122_3344_5566_7788u64.rotate_left(4 * i as u32) ^ (0x0101_0101_0101_0101u64.wrapping_mul(i as u64)); }
-    let b = Cpu { r: [u64::MAX; 16], cf: true, zf: false, sf: true, of: false, df: false };
-    let mut c = Cpu { r: [0; 16], cf: true, zf: true, sf: true, of: true, df: false };
-    for i in 0..16 { c.r[i] = if i % 2 == 0 { 0x8000_0000_8000_8080 } else { 0x7fff_ffff_7fff_7f7f }; }
-    let mut v = vec![a, b, c];
-    if m == M::X86 { for s in v.iter_mut() { for i in 0..16 { s.r[i] = if i < 8 { s.r[i] & 0xffff_ffff } else { 0 }; } } }
-    v
-}
-
-fn diff(m: M, exp: &Cpu, got: &Cpu) -> Option<(String, String, String)> {
+fn diff(m: M, exp: &Out, got: &Got) -> Option<(String, String, String)> {
     for i in 0..nregs(m) {
-        if exp.r[i] != got.r[i] { return Some((full_name(m, i).to_string(), format!("0x{:x}", exp.r[i]), format!("0x{:x}", got.r[i]))); }
+        let k = exp.rmask[i];
+        if exp.cpu.r[i] & k != got.cpu.r[i] & k { return Some((full_name(m, i).to_string(), format!("0x{:x}", exp.cpu.r[i]), format!("0x{:x}", got.cpu.r[i]))); }
     }
-    for (n, e, g) in [("CF", exp.cf, got.cf), ("ZF", exp.zf, got.zf), ("SF", exp.sf, got.sf), ("OF", exp.of, got.of), ("DF", exp.df, got.df)] {
-        if e != g { return Some((n.to_string(), format!("{}", e as u8), format!("{}", g as u8))); }
+    for (n, u, e, g) in [("CF", UCF, exp.cpu.cf, got.cpu.cf), ("ZF", UZF, exp.cpu.zf, got.cpu.zf), ("SF", USF, exp.cpu.sf, got.cpu.sf), ("OF", UOF, exp.cpu.of, got.cpu.of), ("DF", 0, exp.cpu.df, got.cpu.df)] {
+        if exp.undef & u == 0 && e != g { return Some((n.to_string(), format!("{}", e as u8), format!("{}", g as u8))); }
     }
+    if exp.cpu.fs != got.cpu.fs { return Some(("fs_base".to_string(), format!("0x{:x}", exp.cpu.fs), format!("0x{:x}", got.cpu.fs))); }
+    if exp.cpu.gs != got.cpu.gs { return Some(("gs_base".to_string(), format!("0x{:x}", exp.cpu.gs), format!("0x{:x}", got.cpu.gs))); }
+    if exp.next != got.next { return Some(("next instruction address".to_string(), format!("0x{:x}", exp.next), format!("0x{:x}", got.next))); }
+    // memory: every byte written by the executor must hold the model's value, and every byte the model wrote must have been written
+    let gotmap: BTreeMap<u64, u8> = got.written.iter().cloned().collect();
+    for (&a, &v) in &gotmap { let e = exp.cpu.byte(a); if e != v { return Some((format!("memory byte 0x{:x}", a), format!("0x{:02x}", e), format!("0x{:02x}", v))); } }
+    for (&a, &v) in &exp.cpu.mem { let g = gotmap.get(&a).cloned().unwrap_or(pat(a)); if g != v { return Some((format!("memory byte 0x{:x}", a), format!("0x{:02x}", v), format!("0x{:02x} (not written)", g))); } }
     None
 }
 
 fn state_json(m: M, c: &Cpu) -> String {
     let regs: Vec<String> = (0..nregs(m)).map(|i| format!("\"{}\":\"0x{:x}\"", full_name(m, i), c.r[i])).collect();
-    format!("{{{},\"CF\":{},\"ZF\":{},\"SF\":{},\"OF\":{},\"DF\":{}}}", regs.join(","), c.cf as u8, c.zf as u8, c.sf as u8, c.of as u8, c.df as u8)
+    let mem: Vec<String> = c.mem.iter().take(48).map(|(a, b)| format!("\"0x{:x}\":\"0x{:02x}\"", a, b)).collect();
+    format!("{{{},\"CF\":{},\"ZF\":{},\"SF\":{},\"OF\":{},\"DF\":{},\"PF\":{},\"fs_base\":\"0x{:x}\",\"gs_base\":\"0x{:x}\",\"mem\":{{{}}}}}", regs.join(","), c.cf as u8, c.zf as u8, c.sf as u8, c.of as u8, c.df as u8, c.pf as u8, c.fs, c.gs, mem.join(","))
 }
 
-fn related(kind: Kind) -> &'static str {
-    match kind {
-        Kind::Move => "[\"set\",\"get\",\"get_register\"]",
-        Kind::Alu2 => "[\"set\",\"get\",\"get_register\",\"set_zf\",\"set_sf\",\"set_of\",\"set_cf\"]",
-        Kind::Alu1 => "[\"set\",\"get\",\"get_register\",\"set_zf\",\"set_sf\",\"set_of\"]",
-        Kind::MulDiv => "[\"set\",\"get\",\"get_register\"]",
-    }
-}
+#[derive(Default, Clone)]
+struct Stat { enc: u64, evals: u64, bad: u64, rejected: u64, skipped: u64 }
+struct Report { op: String, line: String }
+#[derive(Default)]
+struct Res { stats: BTreeMap<String, Stat>, reports: Vec<Report>, rejected_examples: Vec<String> }
 
-fn main() {
-    std::panic::set_hook(Box::new(|_| {}));
-    let mut evals = 0u64;
-    let mut found = 0u64;
-    let mut printed = 0u64;
-    let mut encodings = 0u64;
-    let mut rejected = 0u64;
-    let mut rejected_examples: Vec<String> = Vec::new();
-    let limit: u64 = std::env::var("C01_WITNESS_PRINT").ok().and_then(|s| s.parse().ok()).unwrap_or(40);
-    let mut per_op: BTreeMap<String, (u64, u64, u64)> = BTreeMap::new(); // op -> (encodings, evaluations, disagreements)
-    for m in [M::X86, M::Amd64] {
-        let bases = base_states(m);
-        for case in cases(m) {
-            encodings += 1;
-            let key = format!("{}:{}", if m == M::X86 { "x86" } else { "amd64" }, case.op);
-            per_op.entry(key.clone()).or_insert((0, 0, 0)).0 += 1;
-            let hex: Vec<String> = case.bytes.iter().map(|b| format!("{:02x}", b)).collect();
-            let report = |st: &Cpu, what: String, exp: String, got: String, found: &mut u64, printed: &mut u64, per_op: &mut BTreeMap<String, (u64, u64, u64)>| {
-                *found += 1;
-                per_op.get_mut(&key).unwrap().2 += 1;
-                if *printed < limit {
-                    *printed += 1;
-                    println!("{{\"witness\":true,\"op\":\"{}\",\"ops_related\":{},\"mode\":\"{}\",\"bytes\":\"{}\",\"asm\":\"{}\",\"state\":{},\"where\":\"{}\",\"expected\":\"{}\",\"got\":\"{}\"}}",
-                        case.op, related(case.kind), if m == M::X86 { "x86" } else { "amd64" }, hex.join(" "), case.asm, state_json(m, st), what, exp, got);
-                }
-            };
-            let lifted = catch_unwind(AssertUnwindSafe(|| lift(m, &case.bytes)));
-            let program = match lifted {
-                Ok(Ok(p)) => p,
-                Ok(Err(e)) => {
-                    // an encoding the lifter REJECTS is outside the property ("every encoding the lifter accepts") unless the
-                    // rejection is an operand-width (sort) error, which the property forbids; rejections are counted and listed
-                    if e.contains("Sort error") {
-                        evals += 1; per_op.get_mut(&key).unwrap().1 += 1;
-                        report(&bases[0], "lifting".to_string(), "Ok".to_string(), format!("Err({})", e.replace('"', "'")), &mut found, &mut printed, &mut per_op);
-                    } else {
-                        rejected += 1;
-                        if rejected_examples.len() < 8 { rejected_examples.push(format!("{{\"mode\":\"{}\",\"bytes\":\"{}\",\"asm\":\"{}\",\"error\":\"{}\"}}", if m == M::X86 { "x86" } else { "amd64" }, hex.join(" "), case.asm, e.replace('"', "'").replace('`', "'"))); }
-                    }
-                    continue;
-                }
-                Err(_) => { evals += 1; per_op.get_mut(&key).unwrap().1 += 1; report(&bases[0], "lifting".to_string(), "Ok".to_string(), "panic".to_string(), &mut found, &mut printed, &mut per_op); continue; }
-            };
-            // the register states of this case
-            let mut states: Vec<Cpu> = Vec::new();
-            match (case.kind, case.sem) {
-                (Kind::Move, _) => states.extend(bases.iter().cloned()),
-                (Kind::Alu2, Sem::Alu(_, d, s)) => {
-                    for a in boundary(d.w) {
-                        let bs: Vec<Option<u64>> = match s { Src::Reg(r) => boundary(r.w).into_iter().map(Some).collect(), Src::Imm(_) => vec![None] };
-                        for b in bs {
-                            let mut st = bases[0].clone();
-                            if let (Src::Reg(r), Some(b)) = (s, b) { st.write(m, r, b); }
-                            st.write(m, d, a);
-                            states.push(st);
-                        }
-                    }
-                }
-                (Kind::Alu1, Sem::Un(_, d)) => {
-                    for a in boundary(d.w) { for cf in [false, true] {
-                        let mut st = bases[0].clone();
-                        st.write(m, d, a);
-                        st.cf = cf;
-                        states.push(st);
-                    } }
-                }
-                (Kind::MulDiv, Sem::MulDiv(_, d)) => {
-                    let lo = R { idx: 0, w: d.w, high: false };
-                    let hi = if d.w == 8 { R { idx: 0, w: 8, high: true } } else { R { idx: 2, w: d.w, high: false } };
-                    for b in boundary(d.w).into_iter().chain([3u64, 0x10]) { for a in boundary(d.w).into_iter().chain([7u64, 0x64]) { for h in [0u64, 1, 2, wmask(d.w), wmask(d.w) >> 1] {
-                        let mut st = bases[0].clone();
-                        st.write(m, lo, a);
-                        st.write(m, hi, h);
-                        st.write(m, d, b);
-                        states.push(st);
-                    } } }
-                }
-                _ => unreachable!(),
+fn process(m: M, cases: &[Case], bases: &[Cpu], img: &(Vec<u8>, Vec<u8>)) -> Res {
+    let mut res = Res::default();
+    let mut per_op_reports: BTreeMap<String, usize> = BTreeMap::new();
+    for case in cases {
+        let key = format!("{}:{}", m.name(), case.op);
+        let st = res.stats.entry(key.clone()).or_default();
+        st.enc += 1;
+        let hex: Vec<String> = case.bytes.iter().map(|b| format!("{:02x}", b)).collect();
+        let mut report = |st: &mut Stat, reports: &mut Vec<Report>, cpu: &Cpu, what: String, exp: String, got: String| {
+            st.bad += 1;
+            let n = per_op_reports.entry(case.op.clone()).or_insert(0);
+            if *n < 64 {
+                *n += 1;
+                reports.push(Report { op: case.op.clone(), line: format!("{{\"witness\":true,\"op\":\"{}\",\"ops_related\":{},\"mode\":\"{}\",\"bytes\":\"{}\",\"asm\":\"{}\",\"state\":{},\"where\":\"{}\",\"expected\":\"{}\",\"got\":\"{}\"}}",
+                    case.op, case.rel, m.name(), hex.join(" "), case.asm, state_json(m, cpu), what, exp, got) });
             }
-            for st in &states {
-                let mut exp = st.clone();
-                if !model(&mut exp, m, &case.sem) { continue; } // the processor faults (#DE): outside the property
-                evals += 1;
-                per_op.get_mut(&key).unwrap().1 += 1;
-                let got = catch_unwind(AssertUnwindSafe(|| run(m, &program, case.bytes.len() as u64, st)));
+        };
+        let backing = build_backing(&case.bytes, &case.sem, img);
+        let lifted = catch_unwind(AssertUnwindSafe(|| lift(m, &backing)));
+        let program = match lifted {
+            Ok(Ok(p)) => p,
+            Ok(Err(e)) => {
+                if e.contains("Sort error") {
+                    st.evals += 1;
+                    report(st, &mut res.reports, &bases[case.bases[0] as usize], "lifting".to_string(), "Ok".to_string(), format!("Err({})", e.replace('"', "'")));
+                } else {
+                    st.rejected += 1;
+                    if res.rejected_examples.len() < 4 { res.rejected_examples.push(format!("{{\"mode\":\"{}\",\"bytes\":\"{}\",\"asm\":\"{}\",\"error\":\"{}\"}}", m.name(), hex.join(" "), case.asm, e.replace('"', "'").replace('`', "'").replace('\\', "/"))); }
+                }
+                continue;
+            }
+            Err(_) => { st.evals += 1; report(st, &mut res.reports, &bases[case.bases[0] as usize], "lifting".to_string(), "Ok".to_string(), "panic".to_string()); continue; }
+        };
+        for &bi in case.bases {
+            for p in &case.states {
+                let cpu = apply(m, &bases[bi as usize], p);
+                let exp = match model(m, &cpu, &case.sem, case.bytes.len() as u64) { Ok(o) => o, Err(_) => { st.skipped += 1; continue; } };
+                st.evals += 1;
+                let got = catch_unwind(AssertUnwindSafe(|| run(m, &program, &backing, &cpu)));
                 match got {
-                    Ok(Ok(mut g)) => {
-                        // flags the architecture leaves undefined are not compared
-                        if let Sem::MulDiv(op, _) = case.sem { g.zf = exp.zf; g.sf = exp.sf; if op == Md::Div || op == Md::Idiv { g.cf = exp.cf; g.of = exp.of; } }
-                        if let Some((w, e, g)) = diff(m, &exp, &g) { report(st, w, e, g, &mut found, &mut printed, &mut per_op); } }
-                    Ok(Err(e)) => report(st, "execution".to_string(), "runs to the next instruction address".to_string(), e.replace('"', "'"), &mut found, &mut printed, &mut per_op),
-                    Err(_) => report(st, "execution".to_string(), "runs to the next instruction address".to_string(), "panic".to_string(), &mut found, &mut printed, &mut per_op),
+                    Ok(Ok(gt)) => { if let Some((w, e, gv)) = diff(m, &exp, &gt) { report(st, &mut res.reports, &cpu, w, e, gv); } }
+                    Ok(Err(e)) => report(st, &mut res.reports, &cpu, "execution".to_string(), format!("runs to the next instruction address 0x{:x}", exp.next), e.replace('"', "'")),
+                    Err(_) => report(st, &mut res.reports, &cpu, "execution".to_string(), format!("runs to the next instruction address 0x{:x}", exp.next), "panic".to_string()),
                 }
             }
         }
     }
-    let per: Vec<String> = per_op.iter().map(|(k, v)| format!("\"{}\":{{\"encodings\":{},\"evaluations\":{},\"disagreements\":{}}}", k, v.0, v.1, v.2)).collect();
-    println!("{{\"summary\":true,\"evaluations\":{},\"encodings\":{},\"disagreements\":{},\"rejected_encodings\":{},\"rejected_examples\":[{}],\"per_op\":{{{}}}}}", evals, encodings, found, rejected, rejected_examples.join(","), per.join(","));
+    res
+}
+
+fn main() {
+    std::panic::set_hook(Box::new(|_| {}));
+    let thorough = std::env::var("VERIF_TIER").map(|v| v == "thorough").unwrap_or(false);
+    let threads: usize = std::env::var("C01_THREADS").ok().and_then(|s| s.parse().ok()).unwrap_or(4).max(1);
+    let limit: usize = std::env::var("C01_WITNESS_PRINT").ok().and_then(|s| s.parse().ok()).unwrap_or(3);
+    let only = std::env::var("C01_ONLY").ok();
+    let img = data_image();
+    let mut stats: BTreeMap<String, Stat> = BTreeMap::new();
+    let mut printed: BTreeMap<String, usize> = BTreeMap::new();
+    let mut rejected_examples: Vec<String> = Vec::new();
+    let groups: [(&str, fn(&mut G)); 5] = [("old", grp_old), ("mem", grp_mem), ("cc", grp_cc), ("str", grp_str), ("int", grp_int)];
+    for m in [M::X86, M::Amd64] {
+        let bases = base_states(m);
+        for (gname, gf) in groups.iter() {
+            if let Ok(sel) = std::env::var("C01_GROUPS") { if !sel.split(',').any(|s| s == *gname) { continue; } }
+            let mut g = G { m, thorough, out: Vec::new() };
+            gf(&mut g);
+            let mut cases = g.out;
+            if let Some(o) = &only { cases.retain(|c| c.op.contains(o.as_str()) || c.asm.contains(o.as_str())); }
+            let chunk = ((cases.len() + threads * 8 - 1) / (threads * 8)).max(1);
+            let chunks: Vec<&[Case]> = cases.chunks(chunk).collect();
+            let next = std::sync::atomic::AtomicUsize::new(0);
+            let results: std::sync::Mutex<Vec<(usize, Res)>> = std::sync::Mutex::new(Vec::new());
+            std::thread::scope(|s| {
+                for _ in 0..threads {
+                    s.spawn(|| loop {
+                        let i = next.fetch_add(1, std::sync::atomic::Ordering::SeqCst);
+                        if i >= chunks.len() { break; }
+                        let r = process(m, chunks[i], &bases, &img);
+                        results.lock().unwrap().push((i, r));
+                    });
+                }
+            });
+            let mut results = results.into_inner().unwrap();
+            results.sort_by_key(|x| x.0);
+            for (_, r) in results {
+                for (k, v) in r.stats { let e = stats.entry(k).or_default(); e.enc += v.enc; e.evals += v.evals; e.bad += v.bad; e.rejected += v.rejected; e.skipped += v.skipped; }
+                for rp in r.reports { let n = printed.entry(rp.op.clone()).or_insert(0); if *n < limit { *n += 1; println!("{}", rp.line); } }
+                for x in r.rejected_examples { if rejected_examples.len() < 24 { rejected_examples.push(x); } }
+            }
+        }
+    }
+    let (mut evals, mut encodings, mut found, mut rejected, mut skipped) = (0u64, 0u64, 0u64, 0u64, 0u64);
+    for v in stats.values() { evals += v.evals; encodings += v.enc; found += v.bad; rejected += v.rejected; skipped += v.skipped; }
+    let per: Vec<String> = stats.iter().map(|(k, v)| format!("\"{}\":{{\"encodings\":{},\"evaluations\":{},\"disagreements\":{},\"rejected\":{},\"skipped_states\":{}}}", k, v.enc, v.evals, v.bad, v.rejected, v.skipped)).collect();
+    println!("{{\"summary\":true,\"evaluations\":{},\"encodings\":{},\"disagreements\":{},\"rejected_encodings\":{},\"skipped_states\":{},\"rejected_examples\":[{}],\"per_op\":{{{}}}}}", evals, encodings, found, rejected, skipped, rejected_examples.join(","), per.join(","));
 }
